@@ -3,8 +3,14 @@
 Pure `ast`.  The pure parts of the anchored functions are *symbolically executed*: every local is replaced by what it
 was computed from (so names, aliases like `conf = self._config`, hoisted locals and the order of independent
 statements do not matter), `if`/`else`, early returns, guard clauses, conditional expressions and `not` all become
-`if … then … else` terms, `x is None` tests on Optional values become `match`.  What comes out is the VALUE the code
-computes at a given point, as a Lean term over the inputs:
+`if … then … else` terms, `x is None` tests on Optional values become `match`; `match` statements, assignment
+expressions, private helpers of the same class / module (inlined at the call, early returns included), parameters
+(found by position) and `and`/`or` (taken apart in short-circuit order) are understood as well.  The resulting value
+tree is brought into a NORMAL FORM before it is printed (ordered decision tree over the atomic tests, flattened sorted
+integer sums, one spelling per comparison — see `normal`), so behaviour-preserving refactors print the SAME text and
+no proof can break, while a different function prints a different text.  Tests the extractor cannot read are kept
+as opaque atoms: harmless if both outcomes give the same value, an error if they decide an extracted value.  What
+comes out is the VALUE the code computes at a given point, as a Lean term over the inputs:
 
 * `Resampler._calculate_window_end`            -> `calculateWindowEnd now period align_to`  (the returned pair)
 * `Resampler.__init__`                         -> `firstTickTime loopNow period startDelay` (value stored in `_timer._next_tick_time`)
@@ -72,10 +78,6 @@ def strip_doc(body: list[ast.stmt]) -> list[ast.stmt]:
     return body
 
 
-def is_logging(s: ast.stmt) -> bool:
-    return isinstance(s, ast.Expr) and isinstance(s.value, ast.Call) and ast.unparse(s.value.func).startswith("_logger.")
-
-
 # ------------------------------------------------------------------------------------------------ pieces
 def constants(tree: ast.Module) -> str:
     want = {"DEFAULT_BUFFER_LEN_INIT": "defaultBufferLenInit", "DEFAULT_BUFFER_LEN_MAX": "defaultBufferLenMax",
@@ -126,12 +128,28 @@ def constants(tree: ast.Module) -> str:
     # ResamplerConfig.__post_init__: the lower bound of max_data_age_in_periods
     post = find_method(cfg, "__post_init__")
     bound = None
+    def below(t: ast.expr):  # type: ignore[no-untyped-def]
+        """`c` when the test `t` says `self.max_data_age_in_periods < c` (in any of its spellings)."""
+        neg = False
+        while isinstance(t, ast.UnaryOp) and isinstance(t.op, ast.Not):
+            t, neg = t.operand, not neg
+        if not (isinstance(t, ast.Compare) and len(t.ops) == 1):
+            return None
+        a, op, b = t.left, t.ops[0], t.comparators[0]
+        if isinstance(a, ast.Constant):  # c OP x  ->  x OP' c
+            a, b = b, a
+            op = {ast.Lt: ast.Gt, ast.Gt: ast.Lt, ast.LtE: ast.GtE, ast.GtE: ast.LtE}.get(type(op), type(None))()
+        if not (ast.unparse(a) == "self.max_data_age_in_periods" and isinstance(b, ast.Constant)
+                and isinstance(b.value, (int, float)) and not isinstance(b.value, bool)):
+            return None
+        # (`not (x >= c)` is NOT accepted: it differs from `x < c` on NaN, which the config lets through today)
+        if isinstance(op, ast.Lt) and not neg:
+            return Fraction(b.value)
+        return None
+
     for s in ast.walk(post):
-        if isinstance(s, ast.If) and isinstance(s.test, ast.Compare) and \
-                ast.unparse(s.test.left) == "self.max_data_age_in_periods" and len(s.test.ops) == 1 \
-                and isinstance(s.test.ops[0], ast.Lt) and isinstance(s.test.comparators[0], ast.Constant) \
-                and any(isinstance(b, ast.Raise) for b in s.body):
-            bound = Fraction(s.test.comparators[0].value)
+        if isinstance(s, ast.If) and below(s.test) is not None and any(isinstance(b, ast.Raise) for b in s.body):
+            bound = below(s.test)
     if bound is None:
         raise Unsupported("max_data_age_in_periods lower-bound check not found")
     out.append(f"/-- `ResamplerConfig` rejects `max_data_age_in_periods` below this. -/\n"
@@ -140,22 +158,370 @@ def constants(tree: ast.Module) -> str:
 
 
 def bisect_import(tree: ast.Module) -> None:
-    for n in tree.body:
+    found = False
+    for n in ast.walk(tree):
         if isinstance(n, ast.ImportFrom) and n.module == "bisect":
             for a in n.names:
-                if (a.asname or a.name) == "bisect" and a.name not in ("bisect", "bisect_right"):
-                    raise Unsupported(f"`bisect` is bisect.{a.name}, not bisect_right")
-            return
-    raise Unsupported("`from bisect import bisect` not found")
+                if (a.asname or a.name) in ("bisect", "bisect_right") and a.name not in ("bisect", "bisect_right"):
+                    raise Unsupported(f"`{a.asname or a.name}` is bisect.{a.name}, not bisect_right")
+            found = True
+        if isinstance(n, ast.Import):
+            for a in n.names:
+                if a.name == "bisect" and a.asname in (None, "bisect"):
+                    found = True
+                elif (a.asname or a.name) == "bisect":
+                    raise Unsupported(f"`bisect` is the module {a.name}")
+        if isinstance(n, (ast.Assign, ast.AnnAssign, ast.FunctionDef, ast.AsyncFunctionDef, ast.ClassDef)):
+            names = [n.name] if hasattr(n, "name") else [ast.unparse(t) for t in (n.targets if isinstance(n, ast.Assign) else [n.target])]
+            if any(x in ("bisect", "bisect_right") for x in names):
+                raise Unsupported("`bisect` is redefined in the module")
+    if not found:
+        raise Unsupported("`from bisect import bisect` not found")
 
 
+
+
+
+# ------------------------------------------------------------------------------------------------ terms
+# Values are small trees (tuples), not strings, so that they can be brought into a normal form before printing:
+#   ("var", name) ("int", n) ("rat", num, den) ("op", name, ty, args)            -- if-free
+#   ("ite", cond, a, b) ("match", opt, a_none, b_some)                           -- choices
+#   ("const", bool) ("bvar", name) ("opaque", src) ("isnone", opt) ("cmp", op, x, y, ty)
+#   ("not", c) ("and", cs) ("or", cs)                                            -- Bool-valued
+# The normal form (`normal`) is an ordered decision tree: every `match` on an Optional input first (by name), then the
+# Boolean inputs, then the comparisons (sorted), equal branches merged, tests already decided on the path dropped;
+# the leaves are if-free, integer sums are flattened and sorted, `>`/`≥`/`≠`/`not` are expressed with `<`/`≤`/`=`
+# (`a ≤ b` as `¬ b < a` on Int/Nat only — never on the rationals that stand for floats).  Two pieces of Python that
+# compute the same function by differently arranged tests give the same text.
+TRUE = ("const", True)
+FALSE = ("const", False)
+_PARAMS: list[str] = []  # parameter order of the definition being printed (orders sums / tests like the source does)
+
+
+def V(name: str):  # type: ignore[no-untyped-def]
+    return ("var", name)
+
+
+def Lit(n: int):  # type: ignore[no-untyped-def]
+    return ("int", int(n))
+
+
+def Op(name: str, ty: str, *args):  # type: ignore[no-untyped-def]
+    return ("op", name, ty, tuple(args))
+
+
+OP_FMT = {
+    "add": "({0} + {1})", "sub": "({0} - {1})", "mul": "({0} * {1})", "div": "({0} / {1})", "mod": "({0} % {1})",
+    "neg": "(-{0})", "tdMulFloat": "(tdMulFloat {0} {1})", "totalSeconds": "(totalSeconds {0})",
+    "ceil": "(Rat.ceil {0})", "int2rat": "(({0} : Int) : Rat)", "nat2rat": "((({0} : Nat) : Int) : Rat)",
+    "nat2int": "(({0} : Nat) : Int)",
+}
+
+
+def render(t) -> str:  # type: ignore[no-untyped-def]
+    k = t[0]
+    if k == "var":
+        return t[1]
+    if k == "int":
+        return f"({t[1]} : Int)"
+    if k == "rat":
+        return f"(({t[1]} : Rat) / {t[2]})"
+    if k == "op":
+        if t[2] == "Unk" or t[1] not in OP_FMT:
+            raise Unsupported(f"a value computed from an un-narrowed Optional reaches an extracted term ({t[1]})")
+        return OP_FMT[t[1]].format(*[render(a) for a in t[3]])
+    if k == "const":
+        return "true" if t[1] else "false"
+    if k == "ite":
+        return f"(if {render_prop(t[1])} then {render(t[2])} else {render(t[3])})"
+    if k == "match":
+        return f"(match {t[1]} with | none => {render(t[2])} | some {t[1]}_v => {render(t[3])})"
+    if k == "opaque":
+        raise Unsupported(f"a condition that is not understood decides an extracted value: {t[1][:80]}")
+    raise Unsupported(f"cannot print {k}")
+
+
+def render_prop(c) -> str:  # type: ignore[no-untyped-def]
+    if c[0] == "cmp":
+        return f"{render(c[2])} {c[1]} {render(c[3])}"
+    if c[0] == "bvar":
+        return f"{c[1]} = true"
+    if c[0] == "opaque":
+        raise Unsupported(f"a condition that is not understood decides an extracted value: {c[1][:80]}")
+    raise Unsupported(f"cannot print the test {c[0]}")
+
+
+def if_free(t) -> bool:  # type: ignore[no-untyped-def]
+    k = t[0]
+    if k in ("var", "int", "rat"):
+        return True
+    if k == "op":
+        return all(if_free(a) for a in t[3])
+    return False
+
+
+def mentions(t, name: str) -> bool:  # type: ignore[no-untyped-def]
+    if not isinstance(t, tuple) or not t:
+        return False
+    if isinstance(t[0], str):
+        if t[0] == "var":
+            return t[1] == name
+        return any(mentions(x, name) for x in t[1:] if isinstance(x, tuple))
+    return any(mentions(x, name) for x in t)
+
+
+def _vars(t, acc: set) -> set:  # type: ignore[no-untyped-def]
+    if t[0] == "var":
+        acc.add(t[1])
+    elif t[0] == "op":
+        for a in t[3]:
+            _vars(a, acc)
+    return acc
+
+
+def _rank(name: str) -> int:
+    base = name[:-2] if name.endswith("_v") else name
+    return _PARAMS.index(base) if base in _PARAMS else 99
+
+
+def key_of(t):  # type: ignore[no-untyped-def]
+    """Order of if-free terms: variables in the order of the definition's parameters, literals last."""
+    if t[0] in ("int", "rat"):
+        return (1, 0, repr(t))
+    vs = _vars(t, set())
+    return (0, min([_rank(v) for v in vs], default=99), _safe_render(t))
+
+
+def _safe_render(t) -> str:  # type: ignore[no-untyped-def]
+    try:
+        return render(t)
+    except Unsupported:
+        return repr(t)
+
+
+# ---- integer sums: flattened, sorted
+def _lin(t, sign: int, acc: dict) -> int:  # type: ignore[no-untyped-def]
+    """Accumulate `sign * t` into `acc` (term -> coefficient); returns the constant part."""
+    if t[0] == "int":
+        return sign * t[1]
+    if t[0] == "op" and t[2] == "Int":
+        n, a = t[1], t[3]
+        if n == "add":
+            return _lin(a[0], sign, acc) + _lin(a[1], sign, acc)
+        if n == "sub":
+            return _lin(a[0], sign, acc) + _lin(a[1], -sign, acc)
+        if n == "neg":
+            return _lin(a[0], -sign, acc)
+        if n == "mul" and a[1][0] == "int":
+            sub: dict = {}
+            c = _lin(a[0], 1, sub)
+            for k, v in sub.items():
+                acc[k] = acc.get(k, 0) + sign * v * a[1][1]
+            return sign * c * a[1][1]
+        if n == "mul" and a[0][0] == "int":
+            sub = {}
+            c = _lin(a[1], 1, sub)
+            for k, v in sub.items():
+                acc[k] = acc.get(k, 0) + sign * v * a[0][1]
+            return sign * c * a[0][1]
+    acc[t] = acc.get(t, 0) + sign
+    return 0
+
+
+def canon_int(t):  # type: ignore[no-untyped-def]
+    acc: dict = {}
+    c = _lin(t, 1, acc)
+    pos = sorted([(k, v) for k, v in acc.items() if v > 0], key=lambda kv: key_of(kv[0]))
+    neg = sorted([(k, -v) for k, v in acc.items() if v < 0], key=lambda kv: key_of(kv[0]))
+
+    def scaled(k, v):  # type: ignore[no-untyped-def]
+        return k if v == 1 else ("op", "mul", "Int", (k, Lit(v)))
+
+    out = None
+    for k, v in pos:
+        out = scaled(k, v) if out is None else ("op", "add", "Int", (out, scaled(k, v)))
+    if c > 0:
+        out = Lit(c) if out is None else ("op", "add", "Int", (out, Lit(c)))
+    if out is None:
+        if not neg:
+            return Lit(c)
+        out = Lit(0)
+    for k, v in neg:
+        out = ("op", "sub", "Int", (out, scaled(k, v)))
+    if c < 0:
+        out = ("op", "sub", "Int", (out, Lit(-c)))
+    return out
+
+
+def canon_op(name: str, ty: str, args: tuple):  # type: ignore[no-untyped-def]
+    t = ("op", name, ty, args)
+    if not all(if_free(a) for a in args) or ty == "Unk":
+        return t
+    if ty == "Int" and name in ("add", "sub", "neg", "mul"):
+        if name == "mul" and args[0][0] != "int" and args[1][0] != "int":
+            a, b = sorted(args, key=key_of)
+            return ("op", "mul", "Int", (a, b))
+        return canon_int(t)
+    if name in ("add", "mul") and ty in ("Nat", "Rat"):
+        a, b = sorted(args, key=key_of)
+        return ("op", name, ty, (a, b))
+    return t
+
+
+# ---- comparisons
+def mkcmp(op: str, x, y, ty: str):  # type: ignore[no-untyped-def]
+    """Canonical comparison: only `<`, `≤` (rationals), `=`; may return a constant or a negation."""
+    if op == ">":
+        return mkcmp("<", y, x, ty)
+    if op == "≥":
+        return mkcmp("≤", y, x, ty)
+    if op == "≠":
+        return mknot(mkcmp("=", x, y, ty))
+    if if_free(x) and if_free(y):
+        if x == y:
+            return TRUE if op in ("≤", "=") else FALSE
+        if x[0] == "int" and y[0] == "int":
+            return TRUE if {"<": x[1] < y[1], "≤": x[1] <= y[1], "=": x[1] == y[1]}[op] else FALSE
+        if op == "≤" and ty in ("Int", "Nat"):
+            return mknot(("cmp", "<", y, x, ty))
+        if op == "=":
+            x, y = sorted((x, y), key=key_of)
+    return ("cmp", op, x, y, ty)
+
+
+def mknot(c):  # type: ignore[no-untyped-def]
+    if c[0] == "const":
+        return FALSE if c[1] else TRUE
+    if c[0] == "not":
+        return c[1]
+    return ("not", c)
+
+
+def simp(t, env: dict):  # type: ignore[no-untyped-def]
+    k = t[0]
+    if k in ("var", "int", "rat", "const"):
+        return t
+    if k == "op":
+        return canon_op(t[1], t[2], tuple(simp(a, env) for a in t[3]))
+    if k == "ite":
+        c = simp(t[1], env)
+        if c[0] == "const":
+            return simp(t[2] if c[1] else t[3], env)
+        a, b = simp(t[2], env), simp(t[3], env)
+        return a if a == b else ("ite", c, a, b)
+    if k == "match":
+        st = env.get(("opt", t[1]))
+        if st is not None:
+            return simp(t[2] if st else t[3], env)
+        a, b = simp(t[2], env), simp(t[3], env)
+        return a if a == b and not mentions(b, t[1] + "_v") else ("match", t[1], a, b)
+    if k == "isnone":
+        st = env.get(("opt", t[1]))
+        return t if st is None else (TRUE if st else FALSE)
+    if k in ("bvar", "opaque"):
+        st = env.get(t)
+        return t if st is None else (TRUE if st else FALSE)
+    if k == "cmp":
+        c = mkcmp(t[1], simp(t[2], env), simp(t[3], env), t[4])
+        neg = c[0] == "not"
+        a = c[1] if neg else c
+        if a[0] == "cmp" and a in env:
+            v = env[a]
+            return TRUE if v != neg else FALSE
+        return c
+    if k == "not":
+        return mknot(simp(t[1], env))
+    if k in ("and", "or"):
+        out = []
+        for c in t[1]:
+            c = simp(c, env)
+            if c[0] == "const":
+                if c[1] == (k == "or"):
+                    return c
+                continue
+            out.append(c)
+        if not out:
+            return TRUE if k == "and" else FALSE
+        return out[0] if len(out) == 1 else (k, tuple(out))
+    raise Unsupported(f"simp {k}")
+
+
+def ready_atoms(t, acc: set) -> set:  # type: ignore[no-untyped-def]
+    k = t[0]
+    if k == "op":
+        for a in t[3]:
+            ready_atoms(a, acc)
+    elif k == "ite":
+        for a in t[1:]:
+            ready_atoms(a, acc)
+    elif k == "match":
+        acc.add(("opt", t[1]))
+        ready_atoms(t[2], acc)
+        ready_atoms(t[3], acc)
+    elif k == "isnone":
+        acc.add(("opt", t[1]))
+    elif k in ("bvar", "opaque"):
+        acc.add(t)
+    elif k == "cmp":
+        if if_free(t[2]) and if_free(t[3]):
+            acc.add(t)
+        else:
+            ready_atoms(t[2], acc)
+            ready_atoms(t[3], acc)
+    elif k == "not":
+        ready_atoms(t[1], acc)
+    elif k in ("and", "or"):
+        for c in t[1]:
+            ready_atoms(c, acc)
+    return acc
+
+
+def atom_order(a):  # type: ignore[no-untyped-def]
+    if a[0] == "opt":
+        return (0, _rank(a[1]), a[1])
+    if a[0] == "bvar":
+        return (1, _rank(a[1]), a[1])
+    if a[0] == "cmp":
+        return (2, key_of(a[2]), key_of(a[3]), a[1])
+    return (3, 0, a[1])
+
+
+def expand(t, env: dict, depth: int = 0):  # type: ignore[no-untyped-def]
+    if depth > 24:
+        raise Unsupported("too many nested tests in an extracted value")
+    t = simp(t, env)
+    atoms = ready_atoms(t, set())
+    if not atoms:
+        if not (if_free(t) or t[0] == "const"):
+            raise Unsupported(f"cannot normalise {t[0]}")
+        return t
+    a = min(atoms, key=atom_order)
+    hi = expand(t, {**env, a: True}, depth + 1)
+    lo = expand(t, {**env, a: False}, depth + 1)
+    if a[0] == "opt":
+        if hi == lo and not mentions(lo, a[1] + "_v"):
+            return hi
+        return ("match", a[1], hi, lo)
+    if hi == lo:
+        return hi
+    return ("ite", a, hi, lo)
+
+
+def normal(t, params: list[str]) -> str:  # type: ignore[no-untyped-def]
+    """The Lean text of the normal form of `t` inside a definition with parameters `params`."""
+    global _PARAMS
+    _PARAMS = list(params)
+    try:
+        return render(expand(t, {}))
+    finally:
+        _PARAMS = []
 
 
 # ------------------------------------------------------------------------------------------------ symbolic values
 class Num:
-    """A Lean term of type Int / Nat / Rat / Bool / OptInt."""
+    """A term (tree, see above) of type Int / Nat / Rat / Bool / OptInt / Unk."""
 
-    def __init__(self, term: str, ty: str):
+    def __init__(self, term, ty: str):  # type: ignore[no-untyped-def]
         self.term, self.ty = term, ty
 
     def __repr__(self) -> str:
@@ -202,26 +568,33 @@ class Slice:
         self.lo, self.hi = lo, hi
 
 
+class SampleV:
+    """`Sample(<timestamp>, …)`."""
+
+    def __init__(self, ts):  # type: ignore[no-untyped-def]
+        self.ts = ts
+
+
 class Bottom:
     """The target statement is not reached on this path."""
 
 
-def cast(t: str, ty: str, to: str) -> str:
+def cast(t, ty: str, to: str):  # type: ignore[no-untyped-def]
     if ty == to:
         return t
     if to == "Rat" and ty == "Int":
-        return f"(({t} : Int) : Rat)"
+        return Op("int2rat", "Rat", t)
     if to == "Rat" and ty == "Nat":
-        return f"((({t} : Nat) : Int) : Rat)"
+        return Op("nat2rat", "Rat", t)
     if to == "Int" and ty == "Nat":
-        return f"(({t} : Nat) : Int)"
+        return Op("nat2int", "Int", t)
     raise Unsupported(f"cast {ty} -> {to}")
 
 
-def unify(a: Num, b: Num) -> tuple[str, str, str]:
+def unify(a: Num, b: Num):  # type: ignore[no-untyped-def]
     order = ["Nat", "Int", "Rat"]
     if "Unk" in (a.ty, b.ty):
-        raise Unsupported(f"a value computed from an un-narrowed Optional is used: {a.term} / {b.term}")
+        raise Unsupported("a value computed from an un-narrowed Optional is used")
     if a.ty == b.ty:
         return a.term, b.term, a.ty
     if a.ty in order and b.ty in order:
@@ -242,9 +615,11 @@ def ite(c: Num, a, b):  # type: ignore[no-untyped-def]
         if a.term == b.term and a.ty == b.ty:
             return a
         if a.ty == "Bool" and b.ty == "Bool":
-            return Num(f"(if {c.term} then {a.term} else {b.term})", "Bool")
+            return Num(("ite", c.term, a.term, b.term), "Bool")
+        if "OptInt" in (a.ty, b.ty) or "Unk" in (a.ty, b.ty):
+            return Opaque("Optional values that differ between branches")
         x, y, ty = unify(a, b)
-        return Num(f"(if {c.term} then {x} else {y})", ty)
+        return Num(("ite", c.term, x, y), ty)
     if isinstance(a, Est) and isinstance(b, Est) and a.floor == b.floor:
         return a
     if isinstance(a, Obj) and isinstance(b, Obj) and a.path == b.path:
@@ -252,23 +627,290 @@ def ite(c: Num, a, b):  # type: ignore[no-untyped-def]
     if isinstance(a, NoneV) and isinstance(b, NoneV):
         return a
     if isinstance(a, Bisect) and isinstance(b, Bisect):
-        return Bisect(ite(c, a.key, b.key))
+        k = ite(c, a.key, b.key)
+        return Bisect(k) if isinstance(k, Num) else Opaque("bisect keys")
+    if isinstance(a, Slice) and isinstance(b, Slice):
+        return Slice(ite(c, a.lo, b.lo), ite(c, a.hi, b.hi))
+    if isinstance(a, SampleV) and isinstance(b, SampleV):
+        return SampleV(ite(c, a.ts, b.ts))
     return Opaque("values that differ between branches")
 
 
-class Sym:
-    """Symbolic execution of straight-line / branching code."""
+def describe(v) -> str:  # type: ignore[no-untyped-def]
+    """A short text for a value in an effect record."""
+    if isinstance(v, Obj):
+        return v.path
+    if isinstance(v, Num):
+        try:
+            return _safe_render(simp(v.term, {}))
+        except Unsupported:
+            return _safe_render(v.term)
+    if isinstance(v, NoneV):
+        return "None"
+    return "?"
 
-    def __init__(self, leaves: dict[str, Num], params: dict[str, object], calls: dict[str, object] | None = None):
-        self.leaves = leaves  # access path -> term
+
+def has_side_effects(fn) -> bool:  # type: ignore[no-untyped-def]
+    for n in ast.walk(fn):
+        if isinstance(n, (ast.Assign, ast.AugAssign, ast.AnnAssign)):
+            ts = n.targets if isinstance(n, ast.Assign) else [n.target]
+            for t in ts:
+                for x in ast.walk(t):
+                    if isinstance(x, (ast.Attribute, ast.Subscript)):
+                        return True
+        if isinstance(n, (ast.Delete, ast.Global, ast.Nonlocal)):
+            return True
+    return False
+
+
+def desugar_match(s: ast.Match) -> ast.stmt:
+    """`match subject: case …` over `None` / literals / `_` / a capture / `p1 | p2`, with guards -> an if/elif chain."""
+    subj = s.subject
+
+    def test_of(p: ast.pattern) -> tuple[ast.expr | None, list[ast.stmt]]:
+        if isinstance(p, ast.MatchSingleton):
+            if p.value is None:
+                return ast.Compare(subj, [ast.Is()], [ast.Constant(None)]), []
+            return (subj if p.value else ast.UnaryOp(ast.Not(), subj)), []
+        if isinstance(p, ast.MatchValue):
+            return ast.Compare(subj, [ast.Eq()], [p.value]), []
+        if isinstance(p, ast.MatchAs) and p.pattern is None:
+            if p.name is None:
+                return None, []
+            return None, [ast.Assign([ast.Name(p.name, ast.Store())], subj, lineno=0)]
+        if isinstance(p, ast.MatchOr):
+            parts = [test_of(q) for q in p.patterns]
+            if any(b for _, b in parts):
+                raise Unsupported("match: captures inside an or-pattern")
+            if any(t is None for t, _ in parts):
+                return None, []
+            return ast.BoolOp(ast.Or(), [t for t, _ in parts]), []
+        raise Unsupported(f"match pattern {type(p).__name__}")
+
+    chain: list[ast.stmt] = []
+    for case in reversed(s.cases):
+        t, binds = test_of(case.pattern)
+        if case.guard is not None:
+            if binds:
+                # the guard may use the captured name: substitute the subject for it
+                nm = binds[0].targets[0].id  # type: ignore[attr-defined]
+
+                class Sub(ast.NodeTransformer):
+                    def visit_Name(self, n: ast.Name):  # type: ignore[no-untyped-def]
+                        return subj if n.id == nm else n
+
+                import copy
+                g = Sub().visit(copy.deepcopy(case.guard))
+            else:
+                g = case.guard
+            t = g if t is None else ast.BoolOp(ast.And(), [t, g])
+        body = binds + list(case.body)
+        if t is None:
+            chain = body
+        else:
+            chain = [ast.If(t, body, chain, lineno=0)]
+    return ast.If(ast.Constant(True), chain or [ast.Pass()], [], lineno=0)
+
+
+class Sym:
+    """Symbolic execution of straight-line / branching code (continuation passing).
+
+    `env` maps local names and attribute paths to values; `env["<path>"]` is the tuple of decisions taken so far and
+    `env["<fx>"]` the tuple of effects (attribute stores, method calls on tracked objects, reads of watched leaves)
+    seen so far on this path.  Calls of private helpers of the same class / module are inlined."""
+
+    def __init__(self, leaves: dict, cls: ast.ClassDef | None = None, module: ast.Module | None = None,
+                 calls: dict | None = None, no_inline: tuple = (), optobjs: dict | None = None, watch: tuple = ()):
+        self.leaves = leaves  # access path -> Num
         self.calls = calls or {}  # source text of a call -> value
-        self.params = params
+        self.methods = {n.name: n for n in (cls.body if cls else [])
+                        if isinstance(n, (ast.FunctionDef, ast.AsyncFunctionDef))}
+        self.clsname = cls.name if cls else None
+        self.functions = {n.name: n for n in (module.body if module else [])
+                          if isinstance(n, (ast.FunctionDef, ast.AsyncFunctionDef))}
+        self.no_inline = set(no_inline)
+        self.optobjs = optobjs or {}  # Obj path -> Bool term "is None"
+        self.watch = set(watch)
+        self.ends: list = []  # (path, effects) of every completed path
+        self.special = None  # hook: (sym, call node, env) -> value | None, asked before anything else
+        self.depth = 0
+        self.tmp = 0
+
+    # ------------------------------------------------------------------ bookkeeping
+    @staticmethod
+    def note(env: dict, fx: tuple) -> None:
+        env["<fx>"] = env.get("<fx>", ()) + (fx,)
+
+    def end(self, env: dict):  # type: ignore[no-untyped-def]
+        self.ends.append((env.get("<path>", ()), env.get("<fx>", ())))
+        return Bottom()
+
+    def leaf(self, key: str, env: dict):  # type: ignore[no-untyped-def]
+        if key in self.watch:
+            self.note(env, ("read", key))
+        return self.leaves[key]
+
+    # ------------------------------------------------------------------ helpers of the same class / module
+    def helper_of(self, n: ast.Call, env: dict):  # type: ignore[no-untyped-def]
+        """(function def, bound?) when `n` calls a private helper whose body is to be inlined."""
+        if ast.unparse(n) in self.calls or ast.unparse(n) in self.leaves:
+            return None
+        f = n.func
+        fn = None
+        bound = False
+        if isinstance(f, ast.Attribute) and isinstance(f.value, ast.Name):
+            base = env.get(f.value.id) if f.value.id in env else (Obj("self") if f.value.id == "self" else None)
+            if isinstance(base, Obj) and base.path == "self" and f.attr in self.methods:
+                fn, bound = self.methods[f.attr], True
+            elif f.value.id == self.clsname and f.attr in self.methods:
+                fn, bound = self.methods[f.attr], False
+        elif isinstance(f, ast.Name) and f.id in self.functions and f.id not in env:
+            fn, bound = self.functions[f.id], False
+        if fn is None or fn.name in self.no_inline:
+            return None
+        decos = {ast.unparse(d) for d in fn.decorator_list}
+        if decos - {"staticmethod", "classmethod"}:
+            return None
+        if any(isinstance(x, (ast.Yield, ast.YieldFrom)) for x in ast.walk(fn)):
+            return None
+        if "staticmethod" in decos:
+            bound = False
+        elif "classmethod" in decos:
+            bound = True
+        elif not bound and fn.name in self.methods and isinstance(f, ast.Attribute):
+            return None  # Class.method(obj, …): not understood
+        return fn, bound
+
+    def bind(self, fn, bound: bool, n: ast.Call, env: dict) -> dict:  # type: ignore[no-untyped-def]
+        a = fn.args
+        if a.vararg or a.kwarg:
+            raise Unsupported(f"helper {fn.name} with *args/**kwargs")
+        pos = [x.arg for x in a.posonlyargs + a.args]
+        cenv: dict = {k: v for k, v in env.items() if "." in k or k.startswith("<")}
+        if bound:
+            cenv[pos[0]] = Obj("self")
+            pos = pos[1:]
+        defaults = dict(zip(pos[len(pos) - len(a.defaults):], a.defaults)) if a.defaults else {}
+        for k, d in zip(a.kwonlyargs, a.kw_defaults):
+            if d is not None:
+                defaults[k.arg] = d
+        names = pos + [k.arg for k in a.kwonlyargs]
+        given: dict = {}
+        if len(n.args) > len(pos) or any(isinstance(x, ast.Starred) for x in n.args):
+            raise Unsupported(f"call of helper {fn.name}")
+        for p, x in zip(pos, n.args):
+            given[p] = self.ev(x, env)
+        for k in n.keywords:
+            if k.arg is None or k.arg not in names or k.arg in given:
+                raise Unsupported(f"call of helper {fn.name}")
+            given[k.arg] = self.ev(k.value, env)
+        for p in names:
+            if p in given:
+                cenv[p] = given[p]
+            elif p in defaults:
+                cenv[p] = self.ev(defaults[p], {})
+            else:
+                raise Unsupported(f"call of helper {fn.name}: missing argument {p}")
+        return cenv
+
+    def pure_call(self, fn, bound: bool, n: ast.Call, env: dict):  # type: ignore[no-untyped-def]
+        """The value a helper returns, for a call in a conditionally evaluated position (no effects allowed)."""
+        if has_side_effects(fn):
+            raise Unsupported(f"helper {fn.name} with side effects is called inside an expression")
+        if self.depth > 8:
+            raise Unsupported("helper calls nested too deeply")
+        cenv = self.bind(fn, bound, n, env)
+
+        def target(s: ast.stmt, e: dict):  # type: ignore[no-untyped-def]
+            if isinstance(s, ast.Return):
+                v = self.ev(s.value, e) if s.value is not None else NoneV()
+                self.ends.append((e.get("<path>", ()), e.get("<fx>", ())))
+                return v
+            return None
+
+        self.depth += 1
+        saved = self.ends
+        self.ends = []
+        before = env.get("<fx>", ())
+        try:
+            r = self.run(strip_doc(fn.body) + [ast.Return(None)], cenv, target)
+            inner = self.ends
+        finally:
+            self.depth -= 1
+            self.ends = saved
+        for _, fx in inner:  # what the helper read (on any of its paths) was read by the caller here
+            for f in fx[len(before):]:
+                if f not in env.get("<fx>", ())[len(before):]:
+                    self.note(env, f)
+        return Opaque(f"helper {fn.name} returns nothing") if isinstance(r, Bottom) else r
+
+    def hoist(self, s: ast.stmt, env: dict) -> list[ast.stmt] | None:
+        """Helper calls that `s` evaluates unconditionally, moved into `tmp = call` statements before it."""
+        import copy
+        field = {ast.Assign: "value", ast.AnnAssign: "value", ast.AugAssign: "value", ast.Expr: "value",
+                 ast.Return: "value", ast.If: "test"}.get(type(s))
+        if field is None or getattr(s, field) is None:
+            return None
+        e0 = getattr(s, field)
+        if isinstance(s, (ast.Assign, ast.AnnAssign, ast.Expr)):
+            c = e0.value if isinstance(e0, ast.Await) else e0
+            if isinstance(c, ast.Call) and self.helper_of(c, env):
+                return None  # already in the form `x = helper(…)`
+        if not any(isinstance(x, ast.Call) and self.helper_of(x, env) for x in ast.walk(e0)):
+            return None
+        pre: list[ast.stmt] = []
+        sym = self
+
+        def go(e: ast.expr) -> ast.expr:
+            if isinstance(e, ast.Await) and isinstance(e.value, ast.Call) and sym.helper_of(e.value, env):
+                e = e.value
+            if isinstance(e, ast.Call) and sym.helper_of(e, env):
+                e.args = [go(x) for x in e.args]
+                for k in e.keywords:
+                    k.value = go(k.value)
+                sym.tmp += 1
+                name = f"__h{sym.tmp}"
+                pre.append(ast.Assign([ast.Name(name, ast.Store())], e, lineno=0))
+                return ast.Name(name, ast.Load())
+            if isinstance(e, ast.IfExp):
+                e.test = go(e.test)
+                return e
+            if isinstance(e, ast.BoolOp):
+                e.values[0] = go(e.values[0])
+                return e
+            if isinstance(e, ast.Compare):
+                e.left = go(e.left)
+                e.comparators[0] = go(e.comparators[0])
+                return e
+            if isinstance(e, (ast.Lambda, ast.ListComp, ast.SetComp, ast.DictComp, ast.GeneratorExp, ast.NamedExpr)):
+                return e
+            for f, v in ast.iter_fields(e):
+                if isinstance(v, ast.expr):
+                    setattr(e, f, go(v))
+                elif isinstance(v, list):
+                    setattr(e, f, [go(x) if isinstance(x, ast.expr) else x for x in v])
+                elif isinstance(v, ast.keyword):
+                    v.value = go(v.value)
+            if isinstance(e, ast.Call):
+                for k in e.keywords:
+                    k.value = go(k.value)
+            return e
+
+        s2 = copy.copy(s)
+        setattr(s2, field, go(copy.deepcopy(e0)))
+        return pre + [s2] if pre else None
 
     # ------------------------------------------------------------------ expressions
     def ev(self, n: ast.expr, env: dict):  # type: ignore[no-untyped-def]
         src = ast.unparse(n)
         if src in self.calls:
             return self.calls[src]
+        if isinstance(n, ast.Await):
+            return self.ev(n.value, env)
+        if isinstance(n, ast.NamedExpr):
+            v = self.ev(n.value, env)
+            env[n.target.id] = v
+            return v
         if isinstance(n, ast.Name):
             if n.id in env:
                 return env[n.id]
@@ -279,33 +921,43 @@ class Sym:
             if n.value is None:
                 return NoneV()
             if isinstance(n.value, bool):
-                return Num("true" if n.value else "false", "Bool")
+                return Num(TRUE if n.value else FALSE, "Bool")
             if isinstance(n.value, int):
-                return Num(f"({n.value} : Int)", "Int")
+                return Num(Lit(n.value), "Int")
             if isinstance(n.value, float):
                 fr = Fraction(n.value)
-                return Num(f"(({fr.numerator} : Rat) / {fr.denominator})", "Rat")
+                return Num(("rat", fr.numerator, fr.denominator), "Rat")
             return Opaque("constant")
         if isinstance(n, ast.Tuple):
             return Tup([self.ev(e, env) for e in n.elts])
         if isinstance(n, ast.Attribute):
             if src == "timedelta.resolution":
-                return Num("(1 : Int)", "Int")
+                return Num(Lit(1), "Int")
             base = self.ev(n.value, env)
             if isinstance(base, Obj):
                 path = f"{base.path}.{n.attr}"
                 if path in env:
                     return env[path]
                 if path in self.leaves:
-                    return self.leaves[path]
+                    return self.leaf(path, env)
+                if base.path == "self" and n.attr in self.methods and \
+                        any(ast.unparse(d) == "property" for d in self.methods[n.attr].decorator_list):
+                    fake = ast.Call(ast.Attribute(ast.Name("self", ast.Load()), n.attr, ast.Load()), [], [])
+                    fn = self.methods[n.attr]
+                    saved = fn.decorator_list
+                    fn.decorator_list = []
+                    try:
+                        return self.pure_call(fn, True, fake, env)
+                    finally:
+                        fn.decorator_list = saved
                 return Obj(path)
             return Opaque(f"attribute {src}")
         if isinstance(n, ast.UnaryOp) and isinstance(n.op, ast.Not):
-            return Num(f"(!{self.cond(n.operand, env).term})", "Bool")
+            return self.cond(n, env)
         if isinstance(n, ast.UnaryOp) and isinstance(n.op, ast.USub):
             v = self.ev(n.operand, env)
             if isinstance(v, Num) and v.ty in ("Int", "Rat"):
-                return Num(f"(-{v.term})", v.ty)
+                return Num(Op("neg", v.ty, v.term), v.ty)
             return Opaque(src)
         if isinstance(n, (ast.BoolOp, ast.Compare)):
             return self.cond(n, env)
@@ -313,117 +965,150 @@ class Sym:
             return self.branch(n.test, env, lambda e: self.ev(n.body, e), lambda e: self.ev(n.orelse, e))
         if isinstance(n, ast.BinOp):
             a, b = self.ev(n.left, env), self.ev(n.right, env)
+            names = {ast.Add: "add", ast.Sub: "sub", ast.Mult: "mul", ast.Div: "div", ast.Mod: "mod"}
+            nm = next((v for k, v in names.items() if isinstance(n.op, k)), None)
             if isinstance(a, Num) and isinstance(b, Num) and (a.ty in ("OptInt", "Unk") or b.ty in ("OptInt", "Unk")):
                 # an Optional the code has narrowed by a guard we do not track: usable for shape recognition only
-                return Num(f"({a.term} ? {b.term})", "Unk")
-            if not (isinstance(a, Num) and isinstance(b, Num)) or "Bool" in (a.ty, b.ty):
+                return Num(Op(nm or "?", "Unk", a.term, b.term), "Unk")
+            if not (isinstance(a, Num) and isinstance(b, Num)) or "Bool" in (a.ty, b.ty) or nm is None:
                 return Opaque(src)
-            if isinstance(n.op, ast.Mult):
+            if nm == "mul":
                 if a.ty == "Int" and b.ty == "Rat":
-                    return Num(f"(tdMulFloat {a.term} {b.term})", "Int")
+                    return Num(Op("tdMulFloat", "Int", a.term, b.term), "Int")
                 if a.ty == "Rat" and b.ty == "Int":
-                    return Num(f"(tdMulFloat {b.term} {a.term})", "Int")
+                    return Num(Op("tdMulFloat", "Int", b.term, a.term), "Int")
                 x, y, ty = unify(a, b)
-                return Num(f"({x} * {y})", ty)
-            if isinstance(n.op, (ast.Add, ast.Sub)):
+                return Num(Op("mul", ty, x, y), ty)
+            if nm in ("add", "sub"):
                 x, y, ty = unify(a, b)
-                return Num(f"({x} {'+' if isinstance(n.op, ast.Add) else '-'} {y})", ty)
-            if isinstance(n.op, ast.Div):
-                return Num(f"({cast(a.term, a.ty, 'Rat')} / {cast(b.term, b.ty, 'Rat')})", "Rat")
-            if isinstance(n.op, ast.Mod) and a.ty == b.ty == "Int":
-                return Num(f"({a.term} % {b.term})", "Int")  # timedelta % timedelta: floor mod = Int.emod (divisor > 0)
+                if ty == "Nat" and nm == "sub":  # Python integers do not truncate
+                    x, y, ty = cast(x, "Nat", "Int"), cast(y, "Nat", "Int"), "Int"
+                return Num(Op(nm, ty, x, y), ty)
+            if nm == "div":
+                return Num(Op("div", "Rat", cast(a.term, a.ty, "Rat"), cast(b.term, b.ty, "Rat")), "Rat")
+            if nm == "mod" and a.ty == b.ty == "Int":
+                return Num(Op("mod", "Int", a.term, b.term), "Int")  # timedelta % timedelta: floor mod = Int.emod (divisor > 0)
             return Opaque(src)
         if isinstance(n, ast.Call):
             return self.call(n, env)
-        if isinstance(n, ast.Starred):
+        if isinstance(n, ast.Subscript) and isinstance(n.slice, ast.Constant) and isinstance(n.slice.value, int):
+            base = self.ev(n.value, env)
+            if isinstance(base, Tup) and 0 <= n.slice.value < len(base.items):
+                return base.items[n.slice.value]
+            return Opaque(src)
+        if isinstance(n, ast.Subscript) and isinstance(n.slice, ast.Slice) and n.slice.step is None \
+                and n.slice.lower is not None and n.slice.upper is not None:
+            base = self.ev(n.value, env)
+            if isinstance(base, Obj) and base.path == "<list(self._buffer)>":
+                return Slice(self.ev(n.slice.lower, env), self.ev(n.slice.upper, env))
             return Opaque(src)
         return Opaque(src)
 
     def call(self, n: ast.Call, env: dict):  # type: ignore[no-untyped-def]
         src = ast.unparse(n)
         if src in self.leaves:
-            return self.leaves[src]
+            return self.leaf(src, env)
+        if self.special is not None:
+            r = self.special(self, n, env)
+            if r is not None:
+                return r
+        h = self.helper_of(n, env)
+        if h is not None:
+            return self.pure_call(h[0], h[1], n, env)
         f = ast.unparse(n.func)
         kw = {k.arg: k.value for k in n.keywords}
-        if f == "datetime.now":
+        if f in ("datetime.now", "datetime.datetime.now"):
             a = [ast.unparse(x) for x in n.args] + [f"{k.arg}={ast.unparse(k.value)}" for k in n.keywords]
-            if a not in (["timezone.utc"], ["tz=timezone.utc"]):
+            if a not in (["timezone.utc"], ["tz=timezone.utc"], ["datetime.timezone.utc"], ["tz=datetime.timezone.utc"]):
                 return Opaque("datetime.now() not in UTC")
             return self.leaves.get("<now>", Opaque("datetime.now()"))
         if f == "asyncio.get_running_loop().time" or f.endswith(".time") and "loop" in f:
-            return self.leaves.get("<loop-time>", Opaque("loop time"))
-        if f == "timedelta":
+            v = self.ev(n.func.value, env) if isinstance(n.func, ast.Attribute) else None  # type: ignore[attr-defined]
+            if f == "asyncio.get_running_loop().time" or (isinstance(v, Obj) and v.path == "<loop>"):
+                return self.leaves.get("<loop-time>", Opaque("loop time"))
+            return Opaque(src)
+        if f in ("asyncio.get_running_loop", "asyncio.get_event_loop") and not n.args:
+            return Obj("<loop>")
+        if f in ("timedelta", "datetime.timedelta"):
             if not n.keywords and len(n.args) == 1 and ast.unparse(n.args[0]) == "0":
-                return Num("(0 : Int)", "Int")
-            if not n.args and list(kw) == ["microseconds"] and ast.unparse(kw["microseconds"]) == "1":
-                return Num("(1 : Int)", "Int")
+                return Num(Lit(0), "Int")
+            if not n.args and not n.keywords:
+                return Num(Lit(0), "Int")
             if not n.args and list(kw) == ["seconds"]:
                 v = self.ev(kw["seconds"], env)
-                if isinstance(v, Num) and v.ty == "Int":
+                if isinstance(v, Num) and v.ty == "Int" and v.term == self.leaves.get("<loop-time>", Num(None, "")).term:
                     return v  # a loop time, already integer µs
-                if isinstance(v, Num) and v.ty in ("Unk", "Rat") and re.fullmatch(
-                        r"\(\(totalSeconds \(now [?-] samplingStart(_v)?\)\) [?/] (received|\(\(\(received : Nat\) : Int\) : Rat\))\)",
-                        v.term):
+                if isinstance(v, Num) and v.ty in ("Unk", "Rat") and self.is_estimate(v.term):
                     return Est(0)  # timedelta(seconds=(now - sampling_start).total_seconds() / received_samples)
-                return Opaque("float seconds")
+            unit = {"days": 86400_000_000, "hours": 3600_000_000, "minutes": 60_000_000, "seconds": 1_000_000,
+                    "milliseconds": 1000, "microseconds": 1}
+            if not n.args and kw and all(k in unit and isinstance(x, ast.Constant) and isinstance(x.value, int)
+                                        and not isinstance(x.value, bool) for k, x in kw.items()):
+                return Num(Lit(sum(unit[k] * x.value for k, x in kw.items())), "Int")
             return Opaque(src)
-        if f == "_to_microseconds" and len(n.args) == 1:
+        if f == "_to_microseconds" and len(n.args) == 1 and not n.keywords:
             return self.ev(n.args[0], env)
         if isinstance(n.func, ast.Attribute) and n.func.attr == "total_seconds" and not n.args:
             v = self.ev(n.func.value, env)
             if isinstance(v, Num) and v.ty == "Int":
-                return Num(f"(totalSeconds {v.term})", "Rat")
+                return Num(Op("totalSeconds", "Rat", v.term), "Rat")
             if isinstance(v, Num) and v.ty == "Unk":
-                return Num(f"(totalSeconds {v.term})", "Unk")
+                return Num(Op("totalSeconds", "Unk", v.term), "Unk")
             return Opaque(src)
         if f in ("max", "min") and len(n.args) == 2 and not n.keywords:
             a, b = self.ev(n.args[0], env), self.ev(n.args[1], env)
             if isinstance(a, Est) or isinstance(b, Est):
                 e, o = (a, b) if isinstance(a, Est) else (b, a)
-                if f == "max" and isinstance(o, Num) and o.term == "(1 : Int)":
-                    return Est(max(e.floor, 1))
+                if f == "max" and isinstance(o, Num) and o.ty == "Int" and o.term[0] == "int" and o.term[1] >= 0:
+                    return Est(max(e.floor, o.term[1]))
                 raise Unsupported(f"shape of the input-period estimate: {src[:80]}")
-            if isinstance(a, Num) and isinstance(b, Num) and a.ty != "OptInt" and b.ty != "OptInt":
+            if isinstance(a, Num) and isinstance(b, Num) and not {a.ty, b.ty} & {"OptInt", "Unk", "Bool"}:
                 x, y, ty = unify(a, b)
-                op = ">" if f == "max" else "<"
-                return Num(f"(if {y} {op} {x} then {y} else {x})", ty)  # Python: the first wins on ties
+                # Python: the first wins on ties
+                return Num(("ite", ("cmp", ">" if f == "max" else "<", y, x, ty), y, x), ty)
             if any(isinstance(v, Num) and v.ty == "OptInt" for v in (a, b)):
                 raise Unsupported(f"{f}() of an Optional that is not narrowed: {src}")
             return Opaque(src)
         if f == "math.ceil" and len(n.args) == 1:
             v = self.ev(n.args[0], env)
             if isinstance(v, Num) and v.ty in ("Rat", "Int", "Nat"):
-                return Num(f"(Rat.ceil {cast(v.term, v.ty, 'Rat')})", "Int")
+                return Num(Op("ceil", "Int", cast(v.term, v.ty, "Rat")), "Int")
             return Opaque(src)
         if f == "len" and len(n.args) == 1:
             v = self.ev(n.args[0], env)
             if isinstance(v, Obj) and f"len({v.path})" in self.leaves:
-                return self.leaves[f"len({v.path})"]
+                return self.leaf(f"len({v.path})", env)
             return Opaque(src)
         if f in ("bisect", "bisect_right", "bisect.bisect", "bisect.bisect_right"):
             buf = self.ev(n.args[0], env) if n.args else None
             key = kw.get("key")
             if not (len(n.args) == 2 and isinstance(buf, Obj) and buf.path == "self._buffer" and set(kw) == {"key"}
-                    and isinstance(key, ast.Lambda) and len(key.args.args) == 1 and isinstance(key.body, ast.Attribute)
-                    and isinstance(key.body.value, ast.Name) and key.body.value.id == key.args.args[0].arg
-                    and key.body.attr == "timestamp"):
+                    and self.is_timestamp_key(key)):
                 raise Unsupported(f"not bisect(self._buffer, <key>, key=lambda s: s.timestamp): {src[:80]}")
             k = self.ev(n.args[1], env)
             if not (isinstance(k, Num) and k.ty == "Int"):
                 raise Unsupported(f"bisect key is not a time: {src[:80]}")
+            self.note(env, ("read", "self._buffer"))
             return Bisect(k)
         if f in ("bisect_left", "bisect.bisect_left"):
             raise Unsupported("bisect_left")
-        if f in ("itertools.islice", "islice") and len(n.args) == 3:
+        if f in ("itertools.islice", "islice") and len(n.args) == 3 and not n.keywords:
             buf = self.ev(n.args[0], env)
             if isinstance(buf, Obj) and buf.path == "self._buffer":
                 return Slice(self.ev(n.args[1], env), self.ev(n.args[2], env))
             return Opaque(src)
         if f in ("list", "tuple") and len(n.args) == 1 and not n.keywords:
             v = self.ev(n.args[0], env)
-            return v if isinstance(v, Slice) else Opaque(src)
+            if isinstance(v, Slice):
+                return v
+            if isinstance(v, Obj) and v.path == "self._buffer":
+                return Obj("<list(self._buffer)>")
+            return Opaque(src)
         if f == "cast" and len(n.args) == 2:
             return self.ev(n.args[1], env)
+        if f == "Sample" and len(n.args) + len(n.keywords) == 2:
+            ts = n.args[0] if n.args else kw.get("timestamp")
+            return SampleV(self.ev(ts, env)) if ts is not None else Opaque(src)
         if f in ("math.isnan", "math.isinf", "math.isfinite") and len(n.args) == 1:
             v = self.ev(n.args[0], env)
             if isinstance(v, Obj) and f"{f}({v.path})" in self.leaves:
@@ -435,12 +1120,35 @@ class Sym:
                 return self.leaves[f"{v.path}.{n.func.attr}()"]
         return Opaque(src)
 
+    @staticmethod
+    def is_timestamp_key(key) -> bool:  # type: ignore[no-untyped-def]
+        if isinstance(key, ast.Lambda) and len(key.args.args) == 1 and isinstance(key.body, ast.Attribute) \
+                and isinstance(key.body.value, ast.Name) and key.body.value.id == key.args.args[0].arg \
+                and key.body.attr == "timestamp":
+            return True
+        return key is not None and ast.unparse(key) in ("attrgetter('timestamp')", "operator.attrgetter('timestamp')")
+
+    @staticmethod
+    def is_estimate(t) -> bool:  # type: ignore[no-untyped-def]
+        """`(now - sampling_start).total_seconds() / received_samples`"""
+        if not (t[0] == "op" and t[1] == "div" and len(t[3]) == 2):
+            return False
+        x, y = t[3]
+        if y[0] == "op" and y[1] == "nat2rat":
+            y = y[3][0]
+        if y != V("received"):
+            return False
+        if not (x[0] == "op" and x[1] == "totalSeconds"):
+            return False
+        d = x[3][0]
+        return d[0] == "op" and d[1] == "sub" and d[3][0] == V("now") and d[3][1] in (V("samplingStart"), V("samplingStart_v"))
+
     # ------------------------------------------------------------------ conditions
     def none_test(self, n: ast.expr, env: dict):  # type: ignore[no-untyped-def]
-        """(value, is_none_test) when `n` is `<x> is None` / `<x> is not None`."""
-        if isinstance(n, ast.Compare) and len(n.ops) == 1 and isinstance(n.ops[0], (ast.Is, ast.IsNot)) \
+        """(value, is_none_test) when `n` is `<x> is None` / `<x> is not None` (also `== None`)."""
+        if isinstance(n, ast.Compare) and len(n.ops) == 1 and isinstance(n.ops[0], (ast.Is, ast.IsNot, ast.Eq, ast.NotEq)) \
                 and isinstance(n.comparators[0], ast.Constant) and n.comparators[0].value is None:
-            return self.ev(n.left, env), isinstance(n.ops[0], ast.Is)
+            return self.ev(n.left, env), isinstance(n.ops[0], (ast.Is, ast.Eq))
         if isinstance(n, ast.UnaryOp) and isinstance(n.op, ast.Not):
             r = self.none_test(n.operand, env)
             if r is not None:
@@ -450,23 +1158,24 @@ class Sym:
     def cond(self, n: ast.expr, env: dict) -> Num:
         src = ast.unparse(n)
         if isinstance(n, ast.BoolOp):
-            j = " && " if isinstance(n.op, ast.And) else " || "
-            return Num("(" + j.join(self.cond(v, env).term for v in n.values) + ")", "Bool")
+            return Num(("and" if isinstance(n.op, ast.And) else "or", tuple(self.cond(v, env).term for v in n.values)), "Bool")
         if isinstance(n, ast.UnaryOp) and isinstance(n.op, ast.Not):
-            return Num(f"(!{self.cond(n.operand, env).term})", "Bool")
+            return Num(mknot(self.cond(n.operand, env).term), "Bool")
         nt = self.none_test(n, env)
         if nt is not None:
             v, is_none = nt
-            if isinstance(v, Num) and v.ty == "OptInt":
-                return Num(f"({v.term}.isNone)" if is_none else f"({v.term}.isSome)", "Bool")
-            if isinstance(v, Num) and v.ty == "Bool" and v.term.startswith("<isNone:"):
-                t = v.term[len("<isNone:"):-1]
-                return Num(t if is_none else f"(!{t})", "Bool")
-            if isinstance(v, NoneV):
-                return Num("true" if is_none else "false", "Bool")
-            if isinstance(v, Num):  # a narrowed Optional
-                return Num("false" if is_none else "true", "Bool")
-            raise Unsupported(f"None test on {src}")
+            t = None
+            if isinstance(v, Num) and v.ty == "OptInt" and v.term[0] == "var":
+                t = ("isnone", v.term[1])
+            elif isinstance(v, Obj) and v.path in self.optobjs:
+                t = self.optobjs[v.path]
+            elif isinstance(v, NoneV):
+                t = TRUE
+            elif isinstance(v, Num) and v.ty != "OptInt":  # a narrowed Optional
+                t = FALSE
+            if t is None:
+                return Num(("opaque", src), "Bool")
+            return Num(t if is_none else mknot(t), "Bool")
         if isinstance(n, ast.Compare):
             ops = {ast.Lt: "<", ast.LtE: "≤", ast.Gt: ">", ast.GtE: "≥", ast.Eq: "=", ast.NotEq: "≠"}
             parts = []
@@ -474,58 +1183,92 @@ class Sym:
             for op, right in zip(n.ops, n.comparators):
                 sym = next((v for k, v in ops.items() if isinstance(op, k)), None)
                 a, b = self.ev(left, env), self.ev(right, env)
-                if sym is None or not (isinstance(a, Num) and isinstance(b, Num)):
-                    raise Unsupported(f"comparison {src}")
-                if b.ty == "OptInt" and a.ty != "OptInt":  # guarded by a None test elsewhere in the same chain
-                    parts.append(f"({b.term}.any fun opt_v => decide ({a.term} {sym} opt_v))")
-                elif a.ty == "OptInt" and b.ty != "OptInt":
-                    parts.append(f"({a.term}.any fun opt_v => decide (opt_v {sym} {b.term}))")
+                if sym is None or not (isinstance(a, Num) and isinstance(b, Num)) or "Bool" in (a.ty, b.ty) \
+                        or "Unk" in (a.ty, b.ty):
+                    return Num(("opaque", src), "Bool")
+                if b.ty == "OptInt" and a.ty != "OptInt" and b.term[0] == "var":
+                    # guarded by a None test elsewhere (Python would raise on None): false on None
+                    x, y, ty = unify(a, Num(V(b.term[1] + "_v"), "Int"))
+                    parts.append(("match", b.term[1], FALSE, ("cmp", sym, x, y, ty)))
+                elif a.ty == "OptInt" and b.ty != "OptInt" and a.term[0] == "var":
+                    x, y, ty = unify(Num(V(a.term[1] + "_v"), "Int"), b)
+                    parts.append(("match", a.term[1], FALSE, ("cmp", sym, x, y, ty)))
+                elif "OptInt" in (a.ty, b.ty):
+                    return Num(("opaque", src), "Bool")
                 else:
-                    x, y, _ = unify(a, b)
-                    parts.append(f"(decide ({x} {sym} {y}))")
+                    x, y, ty = unify(a, b)
+                    parts.append(("cmp", sym, x, y, ty))
                 left = right
-            return Num(parts[0] if len(parts) == 1 else "(" + " && ".join(parts) + ")", "Bool")
+            return Num(parts[0] if len(parts) == 1 else ("and", tuple(parts)), "Bool")
         v = self.ev(n, env)
         if isinstance(v, Num) and v.ty == "Bool":
             return v
         if isinstance(v, Num) and v.ty == "Int":  # truthiness of a timedelta
-            return Num(f"(decide ({v.term} ≠ 0))", "Bool")
+            return Num(mknot(("cmp", "=", v.term, Lit(0), "Int")), "Bool")
         if isinstance(v, Slice):
-            return Num("<slice-nonempty>", "Bool")
-        raise Unsupported(f"condition {src}")
+            return Num(("opaque", "<slice-nonempty>"), "Bool")
+        if isinstance(v, Num) and v.ty == "OptInt" and v.term[0] == "var" and v.term[1] in self.truthy_optionals:
+            return Num(mknot(("isnone", v.term[1])), "Bool")  # a datetime is always truthy
+        return Num(("opaque", src), "Bool")
+
+    truthy_optionals = {"align_to", "samplingStart"}  # Optional[datetime]: `if x` is `x is not None`
 
     def branch(self, test: ast.expr, env: dict, then, orelse):  # type: ignore[no-untyped-def]
-        """Evaluate both continuations of a test; a None test on an Optional leaf becomes a `match`."""
+        """Evaluate both continuations of a test; a None test on an Optional leaf becomes a `match`.  `not`, `and`,
+        `or` are taken apart first (short-circuit order), so that a None test inside them narrows what follows."""
+        if isinstance(test, ast.UnaryOp) and isinstance(test.op, ast.Not):
+            return self.branch(test.operand, env, orelse, then)
+        if isinstance(test, ast.BoolOp) and len(test.values) >= 2:
+            first = test.values[0]
+            rest = test.values[1] if len(test.values) == 2 else ast.BoolOp(test.op, test.values[1:])
+            if isinstance(test.op, ast.Or):
+                return self.branch(first, env, then, lambda e: self.branch(rest, e, then, orelse))
+            return self.branch(first, env, lambda e: self.branch(rest, e, then, orelse), orelse)
         nt = self.none_test(test, env)
-        if nt is not None and isinstance(nt[0], Num) and nt[0].ty == "OptInt" and re.fullmatch(r"\w+", nt[0].term):
+        if nt is None and isinstance(test, ast.Name):  # truthiness of an Optional[datetime]
+            v0 = self.ev(test, env)
+            if isinstance(v0, Num) and v0.ty == "OptInt" and v0.term[0] == "var" and v0.term[1] in self.truthy_optionals:
+                nt = (v0, False)
+        if nt is not None and isinstance(nt[0], Num) and nt[0].ty == "OptInt" and nt[0].term[0] == "var":
             v, is_none = nt
-            some_env = {k: (Num(f"{v.term}_v", "Int") if isinstance(x, Num) and x.term == v.term and x.ty == "OptInt" else x)
-                        for k, x in env.items()}
+            name = v.term[1]
+
+            def is_it(x) -> bool:  # type: ignore[no-untyped-def]
+                return isinstance(x, Num) and x.term == v.term and x.ty == "OptInt"
+
+            path = env.get("<path>", ())
+            some_env = {k: (Num(V(name + "_v"), "Int") if is_it(x) else x) for k, x in env.items()}
+            some_env["<path>"] = path + (("opt", name, "some"),)
+            none_env = {k: (NoneV() if is_it(x) else x) for k, x in env.items()}
+            none_env["<path>"] = path + (("opt", name, "none"),)
             saved = self.leaves
-            self.leaves = {k: (Num(f"{v.term}_v", "Int") if x.term == v.term and x.ty == "OptInt" else x)
-                           for k, x in saved.items()}
+            self.leaves = {k: (Num(V(name + "_v"), "Int") if is_it(x) else x) for k, x in saved.items()}
             try:
                 some_val = (orelse if is_none else then)(some_env)
             finally:
                 self.leaves = saved
-            none_env = {k: (NoneV() if isinstance(x, Num) and x.term == v.term and x.ty == "OptInt" else x)
-                        for k, x in env.items()}
-            self.leaves = {k: x for k, x in saved.items()}
-            none_leaf_keys = [k for k, x in saved.items() if x.term == v.term and x.ty == "OptInt"]
-            for k in none_leaf_keys:
-                none_env[k] = NoneV()
-            try:
-                none_val = (then if is_none else orelse)(none_env)
-            finally:
-                self.leaves = saved
-            return self.match_opt(v.term, none_val, some_val)
+            for k, x in saved.items():
+                if is_it(x):
+                    none_env[k] = NoneV()
+            none_val = (then if is_none else orelse)(none_env)
+            return self.match_opt(name, none_val, some_val)
         c = self.cond(test, env)
-        return ite(c, then(dict(env)), orelse(dict(env)))
+        path = env.get("<path>", ())
+        e1, e2 = dict(env), dict(env)
+        e1["<path>"] = path + (c.term,)
+        e2["<path>"] = path + (mknot(c.term),)
+        if c.term == TRUE:
+            return then(e1)
+        if c.term == FALSE:
+            return orelse(e2)
+        return ite(c, then(e1), orelse(e2))
 
     @staticmethod
     def match_opt(opt: str, none_val, some_val):  # type: ignore[no-untyped-def]
         if isinstance(none_val, Bottom):
-            return some_val if not (isinstance(some_val, Num) and f"{opt}_v" in some_val.term) else Opaque("narrowed")
+            if isinstance(some_val, Num) and mentions(some_val.term, f"{opt}_v"):
+                return Opaque("narrowed")
+            return some_val
         if isinstance(some_val, Bottom):
             return none_val
         if isinstance(none_val, Tup) and isinstance(some_val, Tup) and len(none_val.items) == len(some_val.items):
@@ -533,13 +1276,26 @@ class Sym:
         if isinstance(none_val, Num) and isinstance(some_val, Num):
             if none_val.ty == "Bool" and some_val.ty == "Bool":
                 ty, a, b = "Bool", none_val.term, some_val.term
+            elif {none_val.ty, some_val.ty} & {"OptInt", "Unk"}:
+                return Opaque("Optional values that differ between None / not None")
             else:
                 a, b, ty = unify(none_val, some_val)
-            if a == b and f"{opt}_v" not in b:
+            if a == b and not mentions(b, f"{opt}_v"):
                 return Num(a, ty)
-            return Num(f"(match {opt} with | none => {a} | some {opt}_v => {b})", ty)
+            return Num(("match", opt, a, b), ty)
         if isinstance(none_val, Bisect) and isinstance(some_val, Bisect):
-            return Bisect(Sym.match_opt(opt, none_val.key, some_val.key))
+            k = Sym.match_opt(opt, none_val.key, some_val.key)
+            return Bisect(k) if isinstance(k, Num) else Opaque("bisect keys")
+        if isinstance(none_val, Slice) and isinstance(some_val, Slice):
+            return Slice(Sym.match_opt(opt, none_val.lo, some_val.lo), Sym.match_opt(opt, none_val.hi, some_val.hi))
+        if isinstance(none_val, SampleV) and isinstance(some_val, SampleV):
+            return SampleV(Sym.match_opt(opt, none_val.ts, some_val.ts))
+        if isinstance(none_val, Est) and isinstance(some_val, Est) and none_val.floor == some_val.floor:
+            return none_val
+        if isinstance(none_val, Obj) and isinstance(some_val, Obj) and none_val.path == some_val.path:
+            return none_val
+        if isinstance(none_val, NoneV) and isinstance(some_val, NoneV):
+            return none_val
         return Opaque("values that differ between None / not None")
 
     # ------------------------------------------------------------------ statements (continuation passing)
@@ -547,16 +1303,44 @@ class Sym:
         """The value `target(stmt, env)` yields at the first statement where it is not None, as a function of the
         inputs; `Bottom` on paths that return / fall off before."""
         if not stmts:
-            return Bottom()
+            return self.end(env)
         s, rest = stmts[0], stmts[1:]
+        if isinstance(s, ast.Match):
+            return self.run([desugar_match(s)] + rest, env, target)
+        pre = self.hoist(s, env)
+        if pre is not None:
+            return self.run(pre + rest, env, target)
         hit = target(s, env)
         if hit is not None:
             return hit
         if isinstance(s, ast.Return):
-            return Bottom()
+            if s.value is not None:
+                self.ev(s.value, env)
+            return self.end(env)
+        if isinstance(s, (ast.Raise, ast.Break, ast.Continue)):
+            # never drop such a path silently: what the code does on it is not part of the extracted value
+            raise Unsupported(f"a path ends with `{ast.unparse(s)[:50]}`")
         if isinstance(s, (ast.Assert, ast.Pass, ast.Import, ast.ImportFrom)):
             return self.run(rest, env, target)
+        if isinstance(s, (ast.Assign, ast.AnnAssign)) and s.value is not None:
+            c = s.value.value if isinstance(s.value, ast.Await) else s.value
+            h = self.helper_of(c, env) if isinstance(c, ast.Call) else None
+            if h is not None:
+                targets = s.targets if isinstance(s, ast.Assign) else [s.target]
+                return self.inline(h[0], h[1], c, env, targets, rest, target)
         if isinstance(s, ast.Expr):
+            c = s.value.value if isinstance(s.value, ast.Await) else s.value
+            h = self.helper_of(c, env) if isinstance(c, ast.Call) else None
+            if h is not None:
+                return self.inline(h[0], h[1], c, env, [], rest, target)
+            if isinstance(c, ast.Call) and isinstance(c.func, ast.Attribute):
+                base = self.ev(c.func.value, env)
+                if isinstance(base, Obj) and not base.path.startswith("_logger"):
+                    args = tuple(describe(self.ev(x, env)) for x in c.args) + \
+                        tuple(f"{k.arg}={describe(self.ev(k.value, env))}" for k in c.keywords)
+                    self.note(env, ("call", f"{base.path}.{c.func.attr}", args))
+            if not isinstance(c, ast.Constant):
+                self.ev(c, env)
             return self.run(rest, env, target)
         if isinstance(s, ast.AnnAssign):
             if s.value is None:
@@ -572,14 +1356,7 @@ class Sym:
             return self.run(rest, env, target)
         if isinstance(s, ast.AugAssign):
             env = dict(env)
-            cur = self.ev(s.target, env)
-            rhs = self.ev(s.value, env)
-            if isinstance(cur, Num) and isinstance(rhs, Num) and isinstance(s.op, (ast.Add, ast.Sub)) \
-                    and "OptInt" not in (cur.ty, rhs.ty):
-                x, y, ty = unify(cur, rhs)
-                self.assign(s.target, Num(f"({x} {'+' if isinstance(s.op, ast.Add) else '-'} {y})", ty), env)
-            else:
-                self.assign(s.target, Opaque("augmented assignment"), env)
+            self.assign(s.target, self.aug_value(s, env), env)
             return self.run(rest, env, target)
         if isinstance(s, ast.If):
             return self.branch(s.test, env, lambda e: self.run(s.body + rest, e, target),
@@ -587,23 +1364,75 @@ class Sym:
         if isinstance(s, ast.Try) and not s.finalbody:
             # the protected statements cannot raise in the understood subset: body, then `else`
             return self.run(s.body + s.orelse + rest, env, target)
+        if isinstance(s, (ast.With, ast.AsyncWith)):
+            return self.run(s.body + rest, env, target)
+        if isinstance(s, (ast.For, ast.AsyncFor, ast.While)):
+            # a loop: whatever it assigns is unknown afterwards; a target inside it is not understood
+            env = dict(env)
+            for x in ast.walk(s):
+                if isinstance(x, ast.stmt) and x is not s and target(x, dict(env)) is not None:
+                    raise Unsupported(f"the extracted statement is inside a loop: {ast.unparse(x)[:60]}")
+                if isinstance(x, (ast.Name, ast.Attribute)) and isinstance(x.ctx, ast.Store):
+                    self.assign(x, Opaque("assigned in a loop"), env)
+            self.note(env, ("loop", ast.unparse(s)[:40]))
+            return self.run(rest, env, target)
         raise Unsupported(f"statement {type(s).__name__}: {ast.unparse(s)[:60]}")
+
+    def aug_value(self, s: ast.AugAssign, env: dict):  # type: ignore[no-untyped-def]
+        cur = self.ev(s.target, env)
+        rhs = self.ev(s.value, env)
+        if isinstance(cur, Num) and isinstance(rhs, Num) and isinstance(s.op, (ast.Add, ast.Sub)) \
+                and not {cur.ty, rhs.ty} & {"OptInt", "Unk", "Bool"}:
+            x, y, ty = unify(cur, rhs)
+            if ty == "Nat" and isinstance(s.op, ast.Sub):
+                x, y, ty = cast(x, "Nat", "Int"), cast(y, "Nat", "Int"), "Int"
+            return Num(Op("add" if isinstance(s.op, ast.Add) else "sub", ty, x, y), ty)
+        return Opaque("augmented assignment")
+
+    def inline(self, fn, bound: bool, call: ast.Call, env: dict, targets: list, rest: list, target):  # type: ignore[no-untyped-def]
+        """Run the body of a helper in place of `targets = helper(…)`, then the rest of the caller."""
+        if self.depth > 8:
+            raise Unsupported("helper calls nested too deeply")
+        cenv = self.bind(fn, bound, call, env)
+
+        def ctarget(cs: ast.stmt, ce: dict):  # type: ignore[no-untyped-def]
+            if isinstance(cs, ast.Return):
+                v = self.ev(cs.value, ce) if cs.value is not None else NoneV()
+                back = {k: x for k, x in env.items() if "." not in k and not k.startswith("<")}
+                back.update({k: x for k, x in ce.items() if "." in k or k.startswith("<")})
+                for t in targets:
+                    self.assign(t, v, back)
+                self.depth -= 1
+                try:
+                    return self.run(rest, back, target)
+                finally:
+                    self.depth += 1
+            return target(cs, ce)
+
+        self.depth += 1
+        try:
+            return self.run(strip_doc(fn.body) + [ast.Return(None)], cenv, ctarget)
+        finally:
+            self.depth -= 1
 
     def assign(self, t: ast.expr, v, env: dict) -> None:  # type: ignore[no-untyped-def]
         if isinstance(t, ast.Name):
             env[t.id] = v
-        elif isinstance(t, ast.Tuple):
+        elif isinstance(t, (ast.Tuple, ast.List)):
             items = v.items if isinstance(v, Tup) and len(v.items) == len(t.elts) else [Opaque("unpacked")] * len(t.elts)
             for e, x in zip(t.elts, items):
                 self.assign(e, x, env)
         elif isinstance(t, ast.Attribute):
             base = self.ev(t.value, env)
             if isinstance(base, Obj):
-                env[f"{base.path}.{t.attr}"] = v
+                path = f"{base.path}.{t.attr}"
+                # an object we know nothing about is still *that* object when read back through the same path
+                env[path] = Obj(path) if isinstance(v, Opaque) else v
+                self.note(env, ("store", path, describe(v)))
         # subscripts etc.: not tracked
 
 
-def need_int(v, what: str) -> str:  # type: ignore[no-untyped-def]
+def need_int(v, what: str):  # type: ignore[no-untyped-def]
     if isinstance(v, Num) and v.ty in ("Int", "Nat"):
         return cast(v.term, v.ty, "Int")
     raise Unsupported(f"{what}: not an integer/time value ({type(v).__name__} {getattr(v, 'why', getattr(v, 'term', ''))})")
@@ -611,29 +1440,58 @@ def need_int(v, what: str) -> str:  # type: ignore[no-untyped-def]
 
 # ------------------------------------------------------------------------------------------------ pieces
 CONFIG_LEAVES = {
-    "self._config.resampling_period": Num("resamplingPeriod", "Int"),
-    "self._config.max_data_age_in_periods": Num("maxAge", "Rat"),
-    "self._config.max_buffer_len": Num("maxBufferLen", "Nat"),
-    "self._config.warn_buffer_len": Num("warnBufferLen", "Nat"),
+    "self._config.resampling_period": Num(V("resamplingPeriod"), "Int"),
+    "self._config.max_data_age_in_periods": Num(V("maxAge"), "Rat"),
+    "self._config.max_buffer_len": Num(V("maxBufferLen"), "Nat"),
+    "self._config.warn_buffer_len": Num(V("warnBufferLen"), "Nat"),
 }
 HELPER_LEAVES = {
     **CONFIG_LEAVES,
-    "self._source_properties.sampling_period": Num("samplingPeriod", "OptInt"),
-    "self._source_properties.sampling_start": Num("samplingStart", "OptInt"),
-    "self._source_properties.received_samples": Num("received", "Nat"),
-    "len(self._buffer)": Num("bufLen", "Nat"),
-    "self._buffer.maxlen": Num("maxlen", "Nat"),
+    "self._source_properties.sampling_period": Num(V("samplingPeriod"), "OptInt"),
+    "self._source_properties.sampling_start": Num(V("samplingStart"), "OptInt"),
+    "self._source_properties.received_samples": Num(V("received"), "Nat"),
+    "len(self._buffer)": Num(V("bufLen"), "Nat"),
+    "self._buffer.maxlen": Num(V("maxlen"), "Nat"),
 }
+MUTABLE_LEAVES = ("self._source_properties.sampling_period", "self._source_properties.sampling_start",
+                  "self._source_properties.received_samples", "len(self._buffer)", "self._buffer.maxlen")
 
 
 def body_of(fn) -> list[ast.stmt]:  # type: ignore[no-untyped-def]
     return strip_doc(fn.body)
 
 
-def calc_window_end(res: ast.ClassDef) -> str:
+def params_of(fn, n: int, what: str) -> list[str]:  # type: ignore[no-untyped-def]
+    """Names of the positional parameters (parameters are found by position, not by name)."""
+    a = fn.args
+    names = [x.arg for x in a.posonlyargs + a.args]
+    if len(names) != n or a.vararg or a.kwarg or a.kwonlyargs:
+        raise Unsupported(f"{what} signature")
+    return names
+
+
+def own_exprs(s: ast.stmt):  # type: ignore[no-untyped-def]
+    """The expression nodes a statement evaluates itself (not those of nested statements)."""
+    if isinstance(s, (ast.If, ast.While)):
+        roots: list = [s.test]
+    elif isinstance(s, (ast.For, ast.AsyncFor)):
+        roots = [s.iter]
+    elif isinstance(s, (ast.With, ast.AsyncWith)):
+        roots = [i.context_expr for i in s.items]
+    elif isinstance(s, (ast.Try, ast.FunctionDef, ast.AsyncFunctionDef, ast.ClassDef, ast.Match)):
+        roots = []
+    else:
+        roots = [s]
+    for r in roots:
+        yield from ast.walk(r)
+
+
+def calc_window_end(res: ast.ClassDef, tree: ast.Module, args: dict) -> str:
+    """`args`: what `__init__` passes for the parameters of the method (none today; e.g. the current time)."""
     fn = find_method(res, "_calculate_window_end")
-    sym = Sym({"self._config.resampling_period": Num("period", "Int"), "self._config.align_to": Num("align_to", "OptInt"),
-               "<now>": Num("now", "Int")}, {})
+    sym = Sym({"self._config.resampling_period": Num(V("period"), "Int"),
+               "self._config.align_to": Num(V("align_to"), "OptInt"),
+               "<now>": Num(V("now"), "Int")}, cls=res, module=tree)
 
     def target(s: ast.stmt, env: dict):  # type: ignore[no-untyped-def]
         if isinstance(s, ast.Return):
@@ -645,94 +1503,226 @@ def calc_window_end(res: ast.ClassDef) -> str:
             return Tup([Num(need_int(x, "window end / start delay"), "Int") for x in v.items])
         return None
 
-    r = sym.run(body_of(fn), {}, target)
+    r = sym.run(body_of(fn), dict(args), target)
     if not isinstance(r, Tup):
         raise Unsupported("_calculate_window_end: no returned pair")
+    ps = ["now", "period", "align_to"]
     return ("/-- `Resampler._calculate_window_end` with `datetime.now()` as the parameter `now`: "
             "(window end, timer start delay). -/\n"
             "def calculateWindowEnd (now period : Int) (align_to : Option Int) : Int × Int :=\n"
-            f"  ({r.items[0].term},\n   {r.items[1].term})")
+            f"  ({normal(r.items[0].term, ps)},\n   {normal(r.items[1].term, ps)})")
 
 
-def timer_hack(res: ast.ClassDef) -> str:
+def timer_hack(res: ast.ClassDef, tree: ast.Module, args_out: dict) -> str:
     init = find_method(res, "__init__")
-    if [a.arg for a in init.args.args] != ["self", "config"]:
-        raise Unsupported("Resampler.__init__ signature")
-    sym = Sym({"self._config.resampling_period": Num("period", "Int"), "<loop-time>": Num("loopNow", "Int")}, {},
-              calls={"self._calculate_window_end()": Tup([Num("windowEnd0", "Int"), Num("startDelay", "Int")])})
-    timer_ok = []
+    cfg = params_of(init, 2, "Resampler.__init__")[1]
+    sym = Sym({"self._config.resampling_period": Num(V("period"), "Int"), "<loop-time>": Num(V("loopNow"), "Int"),
+               "self._config.align_to": Num(V("align_to"), "OptInt"), "<now>": Num(V("now"), "Int")},
+              cls=res, module=tree, no_inline=("_calculate_window_end",))
+    calc = find_method(res, "_calculate_window_end")
+    calls: list = []
 
-    def target(s: ast.stmt, env: dict):  # type: ignore[no-untyped-def]
-        for n in ast.walk(s):
-            if isinstance(n, ast.Call) and ast.unparse(n.func) == "Timer":
-                a0 = sym.ev(n.args[0], env) if n.args else None
-                timer_ok.append(len(n.args) == 2 and isinstance(a0, Num) and a0.term == "period"
-                                and ast.unparse(n.args[1]) == "TriggerAllMissed()" and not n.keywords)
-        if isinstance(s, ast.Assign) and any(ast.unparse(t) == "self._timer._next_tick_time" for t in s.targets):
-            return Num(need_int(sym.ev(s.value, env), "first tick time"), "Int")
-        if isinstance(s, (ast.Assign, ast.AnnAssign)) and ast.unparse(s.targets[0] if isinstance(s, ast.Assign) else s.target) == "self._window_end":
-            v = sym.ev(s.value, env)
-            if not (isinstance(v, Num) and v.term == "windowEnd0"):
-                raise Unsupported("self._window_end is not initialised with the calculated window end")
+    def special(sy: Sym, n: ast.Call, env: dict):  # type: ignore[no-untyped-def]
+        f = n.func
+        if isinstance(f, ast.Attribute) and f.attr == "_calculate_window_end":
+            b = sy.ev(f.value, env)
+            if isinstance(b, Obj) and b.path == "self":
+                if calc.decorator_list:
+                    raise Unsupported("_calculate_window_end is decorated")
+                cenv = sy.bind(calc, True, n, env)
+                names = [x.arg for x in calc.args.posonlyargs + calc.args.args][1:] + [x.arg for x in calc.args.kwonlyargs]
+                calls.append({k: cenv[k] for k in names})
+                return Tup([Num(V("windowEnd0"), "Int"), Num(V("startDelay"), "Int")])
         return None
 
-    r = sym.run(body_of(init), {"config": Obj("self._config")}, target)
+    sym.special = special
+    timer_ok: list = []
+    window_ok: list = []
+
+    def target(s: ast.stmt, env: dict):  # type: ignore[no-untyped-def]
+        for n in own_exprs(s):
+            if isinstance(n, ast.Call) and ast.unparse(n.func) in ("Timer", "timer.Timer"):
+                kw = {k.arg: k.value for k in n.keywords}
+                a = list(n.args)
+                iv = a[0] if a else kw.pop("interval", None)
+                pol = a[1] if len(a) > 1 else kw.pop("missed_tick_policy", None)
+                a0 = sym.ev(iv, env) if iv is not None else None
+                timer_ok.append(len(a) <= 2 and not kw and isinstance(a0, Num) and a0.term == V("period")
+                                and pol is not None and ast.unparse(pol) == "TriggerAllMissed()")
+        if isinstance(s, (ast.Assign, ast.AnnAssign)) and s.value is not None:
+            for t in (s.targets if isinstance(s, ast.Assign) else [s.target]):
+                if not isinstance(t, ast.Attribute):
+                    continue
+                b = sym.ev(t.value, env)
+                if isinstance(b, Obj) and f"{b.path}.{t.attr}" == "self._timer._next_tick_time":
+                    return Num(need_int(sym.ev(s.value, env), "first tick time"), "Int")
+                if isinstance(b, Obj) and f"{b.path}.{t.attr}" == "self._window_end":
+                    v = sym.ev(s.value, env)
+                    if not (isinstance(v, Num) and v.term == V("windowEnd0")):
+                        raise Unsupported("self._window_end is not initialised with the calculated window end")
+                    window_ok.append(True)
+        return None
+
+    r = sym.run(body_of(init), {cfg: Obj("self._config")}, target)
     if not isinstance(r, Num):
         raise Unsupported("assignment to self._timer._next_tick_time not found")
-    if timer_ok != [True]:
+    if not timer_ok or not all(timer_ok):
         raise Unsupported("Timer(<resampling period>, TriggerAllMissed()) not found")
+    if not window_ok:
+        raise Unsupported("self._window_end is not initialised with the calculated window end")
+    if not calls or any(sorted((k, describe(v)) for k, v in c.items()) != sorted((k, describe(v)) for k, v in calls[0].items())
+                        for c in calls):
+        raise Unsupported("_calculate_window_end is not called once by __init__")
+    args_out.update(calls[0])
     return ("/-- The hand-aligned `Timer._next_tick_time` of `Resampler.__init__` (loop clock, µs). -/\n"
-            f"def firstTickTime (loopNow period startDelay : Int) : Int :=\n  {r.term}")
+            f"def firstTickTime (loopNow period startDelay : Int) : Int :=\n  "
+            + normal(r.term, ["loopNow", "period", "startDelay"]))
 
 
-def resample_loop(res: ast.ClassDef) -> str:
+def linearise(stmts: list[ast.stmt], methods: dict, depth: int = 0) -> list[ast.stmt]:
+    """Statement-position calls `self._helper(…)` / `x = [await] self._helper(…)` of single-exit helpers of the same
+    class replaced by the helper's body (parameters bound, locals renamed)."""
+    import copy
+    out: list[ast.stmt] = []
+    for s in stmts:
+        c, targets = None, None
+        if isinstance(s, ast.Expr):
+            c = s.value
+        elif isinstance(s, ast.Assign):
+            c, targets = s.value, s.targets
+        elif isinstance(s, ast.AnnAssign) and s.value is not None:
+            c, targets = s.value, [s.target]
+        if isinstance(c, ast.Await):
+            c = c.value
+        fn = None
+        if isinstance(c, ast.Call) and isinstance(c.func, ast.Attribute) and isinstance(c.func.value, ast.Name) \
+                and c.func.value.id == "self" and c.func.attr in methods and depth < 4:
+            fn = methods[c.func.attr]
+        if fn is not None:
+            body = strip_doc(fn.body)
+            tail = body[-1] if body and isinstance(body[-1], ast.Return) else None
+            rets = [n for n in ast.walk(fn) if isinstance(n, ast.Return)]
+            a = fn.args
+            names = [x.arg for x in a.posonlyargs + a.args][1:]
+            simple = (not fn.decorator_list and all(r is tail for r in rets) and not a.vararg and not a.kwarg
+                      and not a.kwonlyargs and not a.defaults and not c.keywords and len(c.args) == len(names)
+                      and not any(isinstance(x, (ast.Yield, ast.YieldFrom, ast.Starred)) for x in ast.walk(fn))
+                      and not any(isinstance(x, ast.Starred) for x in c.args))
+            if simple:
+                local = set(names) | {n.id for n in ast.walk(fn) if isinstance(n, ast.Name) and isinstance(n.ctx, ast.Store)}
+                suffix = f"__{fn.name.strip('_')}{depth}"
+
+                class Ren(ast.NodeTransformer):
+                    def visit_Name(self, n: ast.Name):  # type: ignore[no-untyped-def]
+                        return ast.Name(n.id + suffix, n.ctx) if n.id in local else n
+
+                inner = [Ren().visit(copy.deepcopy(x)) for x in (body[:-1] if tail is not None else body)]
+                for p, x in zip(names, c.args):
+                    out.append(ast.Assign([ast.Name(p + suffix, ast.Store())], x, lineno=0))
+                out.extend(linearise(inner, methods, depth + 1))
+                if tail is not None and tail.value is not None and targets:
+                    out.append(ast.Assign(targets, Ren().visit(copy.deepcopy(tail.value)), lineno=0))
+                elif targets:
+                    out.append(ast.Assign(targets, ast.Constant(None), lineno=0))
+                continue
+        out.append(s)
+    return out
+
+
+def resample_loop(res: ast.ClassDef, tree: ast.Module) -> str:
     fn = find_method(res, "resample")
-    sym = Sym({"self._config.resampling_period": Num("period", "Int"), "self._window_end": Num("windowEnd", "Int")}, {})
-    stmts = body_of(fn)
+    methods = {n.name: n for n in res.body if isinstance(n, (ast.FunctionDef, ast.AsyncFunctionDef))}
+    sym = Sym({"self._config.resampling_period": Num(V("period"), "Int"), "self._window_end": Num(V("windowEnd"), "Int")},
+              cls=res, module=tree)
+    stmts = linearise(body_of(fn), methods)
     li = next((i for i, s in enumerate(stmts) if isinstance(s, ast.AsyncFor)), None)
     if li is None or ast.unparse(stmts[li].iter) != "self._timer":  # type: ignore[attr-defined]
         raise Unsupported("`async for … in self._timer` not found in resample()")
-    # locals defined before the loop (hoisted `period = …`)
+    if stmts[li].orelse:  # type: ignore[attr-defined]
+        raise Unsupported("`async for … else` in resample()")
     env: dict = {}
+    live_names = {"self._resamplers"}
+
+    def step_env(s: ast.stmt) -> None:
+        """Track top-level locals (hoisted `period = …`, aliases); anything assigned elsewhere becomes unknown."""
+        if isinstance(s, (ast.Assign, ast.AnnAssign)) and s.value is not None:
+            ts = s.targets if isinstance(s, ast.Assign) else [s.target]
+            v = sym.ev(s.value, env)
+            for t in ts:
+                if isinstance(t, (ast.Name, ast.Tuple, ast.List)):
+                    sym.assign(t, v, env)
+                if isinstance(t, ast.Name) and ast.unparse(s.value) in live_names:
+                    live_names.add(t.id)
+            return
+        for x in ast.walk(s):
+            if isinstance(x, ast.Name) and isinstance(x.ctx, ast.Store):
+                env[x.id] = Opaque("assigned in a nested statement")
+
     for s in stmts[:li]:
-        if isinstance(s, ast.Assign) and len(s.targets) == 1 and isinstance(s.targets[0], ast.Name):
-            env[s.targets[0].id] = sym.ev(s.value, env)
-    body = stmts[li].body  # type: ignore[attr-defined]
+        step_env(s)
+    body = linearise(stmts[li].body, methods)  # type: ignore[attr-defined]
     gather_idx = None
     for i, s in enumerate(body):
         for n in ast.walk(s):
             if isinstance(n, ast.Await) and isinstance(n.value, ast.Call) and ast.unparse(n.value.func) == "asyncio.gather":
+                if gather_idx is not None:
+                    raise Unsupported("more than one asyncio.gather in resample()")
                 gather_idx, gather_call = i, n.value
     if gather_idx is None:
         raise Unsupported("await asyncio.gather(…) not found in resample()")
+    if not isinstance(body[gather_idx], (ast.Assign, ast.AnnAssign, ast.Expr)):
+        raise Unsupported("the gather is inside a compound statement")
+    for s in body[:gather_idx]:
+        step_env(s)
+
+    def mentions_live(s: ast.stmt) -> bool:
+        return any(ast.unparse(n) in live_names for n in ast.walk(s) if isinstance(n, (ast.Attribute, ast.Name)))
+
     # what is gathered: `<helper>.resample(self._window_end)` for each registered series
-    if not any(isinstance(n, ast.Call) and isinstance(n.func, ast.Attribute) and n.func.attr == "resample"
-               and len(n.args) == 1 and ast.unparse(n.args[0]) == "self._window_end"
-               for s in body[:gather_idx + 1] for n in ast.walk(s)):
+    def is_resample_call(n: ast.AST) -> bool:
+        if not (isinstance(n, ast.Call) and isinstance(n.func, ast.Attribute) and n.func.attr == "resample"
+                and len(n.args) == 1 and not n.keywords):
+            return False
+        v = sym.ev(n.args[0], env)
+        return isinstance(v, Num) and v.term == V("windowEnd")
+
+    if not any(is_resample_call(n) for s in body[:gather_idx + 1] for n in ast.walk(s)):
         raise Unsupported("gathered calls are not `.resample(self._window_end)`")
     if {k.arg: ast.unparse(k.value) for k in gather_call.keywords}.get("return_exceptions") != "True":
         raise Unsupported("gather without return_exceptions=True")
-    live_after = any(ast.unparse(n) == "self._resamplers" for s in body[gather_idx + 1:] for n in ast.walk(s))
-    if not any(ast.unparse(n) == "self._resamplers" for s in body[:gather_idx + 1] for n in ast.walk(s)):
+    if not any(mentions_live(s) for s in body[:gather_idx + 1]):
         raise Unsupported("resample() never reads self._resamplers")
-    adv = [(i, s) for i, s in enumerate(body) if isinstance(s, ast.AugAssign) and ast.unparse(s.target) == "self._window_end"]
-    other = [s for s in ast.walk(fn) if isinstance(s, (ast.Assign, ast.AnnAssign)) and
-             any(ast.unparse(t) == "self._window_end" for t in (s.targets if isinstance(s, ast.Assign) else [s.target]))]
-    nested = [s for s in ast.walk(fn) if isinstance(s, ast.AugAssign) and ast.unparse(s.target) == "self._window_end"]
-    if len(adv) != 1 or len(nested) != 1 or other or adv[0][0] < gather_idx:
+    step_env(body[gather_idx])
+    live_after = any(mentions_live(s) for s in body[gather_idx + 1:])
+
+    def stores_window_end(s: ast.AST) -> bool:
+        if isinstance(s, ast.Assign):
+            ts = s.targets
+        elif isinstance(s, (ast.AugAssign, ast.AnnAssign)):
+            ts = [s.target]
+        else:
+            return False
+        return any(ast.unparse(x) == "self._window_end" for t in ts for x in ast.walk(t))
+
+    adv = [(i, s) for i, s in enumerate(body) if stores_window_end(s)]
+    every_ids = {id(n) for st in list(stmts) + list(body) for n in ast.walk(st) if stores_window_end(n)}
+    if len(adv) != 1 or every_ids != {id(adv[0][1])} or adv[0][0] < gather_idx:
         raise Unsupported("expected exactly one unconditional `self._window_end += …` after the gather")
-    raise_idx = [i for i, st in enumerate(body) if isinstance(st, ast.If) and
+    raise_idx = [i for i, st in enumerate(body) if
                  any(isinstance(n, ast.Raise) and n.exc is not None and "ResamplingError" in ast.unparse(n.exc)
                      for n in ast.walk(st))]
-    if len(raise_idx) != 1 or raise_idx[0] < gather_idx:
+    if len(raise_idx) != 1 or raise_idx[0] < gather_idx or not isinstance(body[raise_idx[0]], (ast.If, ast.Raise)):
         raise Unsupported("expected exactly one `if exceptions: raise ResamplingError(…)` after the gather")
+    for s in body[gather_idx + 1:adv[0][0]]:
+        step_env(s)
     s = adv[0][1]
-    if not isinstance(s.op, (ast.Add, ast.Sub)):
-        raise Unsupported("window advance operator")
-    t = need_int(sym.ev(s.value, env), "window advance")
-    symb = "+" if isinstance(s.op, ast.Add) else "-"
-    return (f"/-- `self._window_end {symb}= …` after every gather. -/\n"
-            f"def advanceWindowEnd (windowEnd period : Int) : Int :=\n  windowEnd {symb} {t}\n\n"
+    if isinstance(s, ast.AugAssign):
+        new = sym.aug_value(s, env)
+    else:
+        new = sym.ev(s.value, env)  # type: ignore[attr-defined]
+    t = normal(need_int(new, "window advance"), ["windowEnd", "period"])
+    return ("/-- `self._window_end` after the gather of every tick. -/\n"
+            f"def advanceWindowEnd (windowEnd period : Int) : Int :=\n  {t}\n\n"
             "/-- `true`: after the gather `resample()` only uses a snapshot of the series taken before it;\n"
             "`false`: it reads the live `self._resamplers` again (series added/removed in flight are mis-indexed). -/\n"
             f"def gatherOverSnapshot : Bool := {'false' if live_after else 'true'}\n\n"
@@ -741,53 +1731,63 @@ def resample_loop(res: ast.ClassDef) -> str:
             f"def advanceOnError : Bool := {'true' if adv[0][0] < raise_idx[0] else 'false'}")
 
 
-def helper_parts(hel: ast.ClassDef) -> str:
+def helper_parts(hel: ast.ClassDef, tree: ast.Module) -> str:
     out = []
     # --- _update_source_sample_period(now): when is the estimate NOT taken, and what is stored
     fn = find_method(hel, "_update_source_sample_period")
-    if [a.arg for a in fn.args.args] != ["self", "now"]:
-        raise Unsupported("_update_source_sample_period signature")
-    sym = Sym(dict(HELPER_LEAVES), {})
+    now = params_of(fn, 2, "_update_source_sample_period")[1]
+    sym = Sym(dict(HELPER_LEAVES), cls=hel, module=tree)
     stored: list = []
 
     def target_guard(s: ast.stmt, env: dict):  # type: ignore[no-untyped-def]
         if isinstance(s, ast.Return):
             v = sym.ev(s.value, env) if s.value is not None else None
-            if not (isinstance(v, Num) and v.term in ("true", "false")):
+            if not (isinstance(v, Num) and v.ty == "Bool"):
                 raise Unsupported("_update_source_sample_period returns something else than True/False")
-            return Num("true" if v.term == "false" else "false", "Bool")  # skipped = returned False
-        if isinstance(s, ast.Assign):
-            for t in s.targets:
+            return Num(mknot(v.term), "Bool")  # skipped = returned False
+        if isinstance(s, (ast.Assign, ast.AnnAssign)) and s.value is not None:
+            for t in (s.targets if isinstance(s, ast.Assign) else [s.target]):
                 tv = sym.ev(t.value, env) if isinstance(t, ast.Attribute) else None
                 if isinstance(t, ast.Attribute) and isinstance(tv, Obj) and f"{tv.path}.{t.attr}" == "self._source_properties.sampling_period":
-                    stored.append(sym.ev(s.value, env))
+                    stored.append((env.get("<path>", ()), sym.ev(s.value, env)))
+        if isinstance(s, ast.AugAssign) and "sampling_period" in ast.unparse(s.target):
+            raise Unsupported("augmented assignment to the sampling period")
         return None
 
-    guard = sym.run(body_of(fn), {"now": Num("now", "Int")}, target_guard)
+    guard = sym.run(body_of(fn), {now: Num(V("now"), "Int")}, target_guard)
     if not (isinstance(guard, Num) and guard.ty == "Bool"):
         raise Unsupported("guard of _update_source_sample_period not understood")
-    if not stored or not all(isinstance(v, Est) for v in stored) or len({v.floor for v in stored}) != 1:
+    if not stored or not all(isinstance(v, Est) for _, v in stored) or len({v.floor for _, v in stored}) != 1:
         raise Unsupported("shape of the input-period estimate")
+    ps = ["samplingPeriod", "samplingStart", "received", "resamplingPeriod", "maxAge", "bufLen", "maxlen", "now"]
     out.append("/-- `true` = `_update_source_sample_period(now)` returns False without estimating the input period. -/\n"
                "def skipPeriodUpdate (samplingPeriod samplingStart : Option Int) (received : Nat) (resamplingPeriod : Int)\n"
-               "    (maxAge : Rat) (bufLen maxlen : Nat) (now : Int) : Bool :=\n  " + guard.term)
+               "    (maxAge : Rat) (bufLen maxlen : Nat) (now : Int) : Bool :=\n  " + normal(guard.term, ps))
     out.append("/-- Lower clamp (µs) applied to the estimated input period (0: the estimate may round down to zero). -/\n"
-               f"def minInputPeriodEstimate : Int := {stored[0].floor}")
+               f"def minInputPeriodEstimate : Int := {stored[0][1].floor}")
 
     # --- _update_buffer_len: the maxlen the deque is rebuilt with
     fn = find_method(hel, "_update_buffer_len")
+    params_of(fn, 1, "_update_buffer_len")
     leaves = dict(HELPER_LEAVES)
-    leaves["self._source_properties.sampling_period"] = Num("inputPeriod", "Int")  # asserted not None by the function
-    sym = Sym(leaves, {})
+    leaves["self._source_properties.sampling_period"] = Num(V("inputPeriod"), "Int")  # asserted not None by the function
+    sym = Sym(leaves, cls=hel, module=tree)
 
     def target_len(s: ast.stmt, env: dict):  # type: ignore[no-untyped-def]
-        if isinstance(s, ast.Assign) and any(ast.unparse(t) == "self._buffer" for t in s.targets):
-            c = s.value
-            if not (isinstance(c, ast.Call) and ast.unparse(c.func) == "deque" and len(c.args) == 1
-                    and isinstance(sym.ev(c.args[0], env), Obj) and sym.ev(c.args[0], env).path == "self._buffer"
-                    and [k.arg for k in c.keywords] == ["maxlen"]):
-                raise Unsupported("the buffer is not rebuilt with deque(self._buffer, maxlen=…)")
-            return Num(need_int(sym.ev(c.keywords[0].value, env), "new buffer length"), "Int")
+        if isinstance(s, (ast.Assign, ast.AnnAssign)) and s.value is not None:
+            for t in (s.targets if isinstance(s, ast.Assign) else [s.target]):
+                b = sym.ev(t.value, env) if isinstance(t, ast.Attribute) else None
+                if not (isinstance(b, Obj) and f"{b.path}.{t.attr}" == "self._buffer"):  # type: ignore[union-attr]
+                    continue
+                c = s.value
+                if not (isinstance(c, ast.Call) and ast.unparse(c.func) in ("deque", "collections.deque") and c.args):
+                    raise Unsupported("the buffer is not rebuilt with deque(self._buffer, maxlen=…)")
+                src = sym.ev(c.args[0], env)
+                ml = c.args[1] if len(c.args) == 2 and not c.keywords else (
+                    c.keywords[0].value if len(c.args) == 1 and [k.arg for k in c.keywords] == ["maxlen"] else None)
+                if not (isinstance(src, Obj) and src.path == "self._buffer" and ml is not None):
+                    raise Unsupported("the buffer is not rebuilt with deque(self._buffer, maxlen=…)")
+                return Num(need_int(sym.ev(ml, env), "new buffer length"), "Int")
         return None
 
     r = sym.run(body_of(fn), {}, target_len)
@@ -796,102 +1796,188 @@ def helper_parts(hel: ast.ClassDef) -> str:
     out.append("/-- The `maxlen` `_update_buffer_len` rebuilds the deque with (clamps included; exact rationals for the\n"
                "float `math.ceil`; `inputPeriod` = the estimated input period). -/\n"
                "def newBufferLenOf (inputPeriod resamplingPeriod : Int) (maxAge : Rat) (maxBufferLen warnBufferLen : Nat) : Int :=\n  "
-               + r.term)
+               + normal(r.term, ["inputPeriod", "resamplingPeriod", "maxAge", "maxBufferLen", "warnBufferLen"]))
 
     # --- resample(timestamp): the slice handed to the resampling function
     fn = find_method(hel, "resample")
-    if [a.arg for a in fn.args.args] != ["self", "timestamp"]:
-        raise Unsupported("_ResamplingHelper.resample signature")
+    ts = params_of(fn, 2, "_ResamplingHelper.resample")[1]
     body = body_of(fn)
-    # the update happens first: a statement `if self._update_source_sample_period(timestamp): self._update_buffer_len()`
-    # before anything reads the buffer or the source properties
-    first = body[0] if body else None
-    if not (isinstance(first, ast.If) and ast.unparse(first.test) == "self._update_source_sample_period(timestamp)"
-            and len(first.body) == 1 and ast.unparse(first.body[0]) == "self._update_buffer_len()" and not first.orelse):
-        lead = [s for s in body if not (isinstance(s, ast.Assign) and ast.unparse(s.value) in ("self._config", "self._source_properties"))]
-        first = lead[0] if lead else None
-        if not (isinstance(first, ast.If) and ast.unparse(first.test) == "self._update_source_sample_period(timestamp)"
-                and len(first.body) == 1 and ast.unparse(first.body[0]) == "self._update_buffer_len()" and not first.orelse):
-            raise Unsupported("resample() does not start with the period/buffer update")
-    rest = [s for s in body if s is not first]
-    sym = Sym(dict(HELPER_LEAVES), {})
-    found: dict = {}
+    updated = ("bvar", "<updated>")
+
+    def mk_sym() -> Sym:
+        sy = Sym(dict(HELPER_LEAVES), cls=hel, module=tree,
+                 no_inline=("_update_source_sample_period", "_update_buffer_len"), watch=MUTABLE_LEAVES)
+
+        def special(sy_: Sym, n: ast.Call, env: dict):  # type: ignore[no-untyped-def]
+            f = n.func
+            if isinstance(f, ast.Attribute) and f.attr in ("_update_source_sample_period", "_update_buffer_len"):
+                b = sy_.ev(f.value, env)
+                if not (isinstance(b, Obj) and b.path == "self"):
+                    return None
+                if f.attr == "_update_buffer_len":
+                    if n.args or n.keywords:
+                        raise Unsupported("_update_buffer_len() called with arguments")
+                    Sym.note(env, ("buflen",))
+                    return Opaque("result of _update_buffer_len()")
+                a = [sy_.ev(x, env) for x in n.args] + [sy_.ev(k.value, env) for k in n.keywords]
+                if not (len(a) == 1 and isinstance(a[0], Num) and a[0].term == V("timestamp")):
+                    raise Unsupported("_update_source_sample_period is not called with the tick's timestamp")
+                Sym.note(env, ("update",))
+                return Num(updated, "Bool")
+            return None
+
+        sy.special = special
+        return sy
+
+    sym = mk_sym()
 
     def target_slice(s: ast.stmt, env: dict):  # type: ignore[no-untyped-def]
-        for n in ast.walk(s):
+        for n in own_exprs(s):
             if isinstance(n, ast.Call) and isinstance(n.func, ast.Attribute) and n.func.attr == "resampling_function":
                 base = sym.ev(n.func.value, env)
                 a = [sym.ev(x, env) for x in n.args]
-                if not (isinstance(base, Obj) and base.path == "self._config" and len(a) == 3 and isinstance(a[0], Slice)
+                if not (isinstance(base, Obj) and base.path == "self._config" and len(a) == 3 and not n.keywords
+                        and isinstance(a[0], Slice)
                         and isinstance(a[1], Obj) and a[1].path == "self._config"
                         and isinstance(a[2], Obj) and a[2].path == "self._source_properties"):
                     raise Unsupported("call of the resampling function changed shape")
                 if not (isinstance(a[0].lo, Bisect) and isinstance(a[0].hi, Bisect)):
                     raise Unsupported("the slice is not bounded by two bisections")
+                sym.ends.append((env.get("<path>", ()), env.get("<fx>", ())))
                 return Tup([a[0].lo.key, a[0].hi.key])
         return None
 
-    r = sym.run(rest, {"timestamp": Num("timestamp", "Int")}, target_slice)
+    r = sym.run(body, {ts: Num(V("timestamp"), "Int")}, target_slice)
     if not isinstance(r, Tup):
         raise Unsupported("window computation of _ResamplingHelper.resample not understood")
+    # the update happens first, and the buffer is resized exactly when the period was updated — before anything reads
+    # the buffer or the source properties
+    if not sym.ends:
+        raise Unsupported("resample(): no path")
+    for path, fx in sym.ends:
+        ev_ = [f for f in fx if f[0] in ("update", "buflen", "read") or
+               (f[0] in ("store", "call") and f[1].startswith(("self._buffer", "self._source_properties")))]
+        if any(f[0] in ("store", "call") for f in ev_):
+            raise Unsupported(f"resample() modifies the buffer / the source properties itself: {[f for f in ev_ if f[0] in ('store', 'call')][0][1]}")
+        took = updated in path
+        want = [("update",), ("buflen",)] if took else [("update",)]
+        if ev_[:len(want)] != want or any(f[0] in ("update", "buflen") for f in ev_[len(want):]) \
+                or (not took and mknot(updated) not in path):
+            raise Unsupported("resample() does not start with the period/buffer update")
     # every return hands out `Sample(timestamp, …)`
-    for n in ast.walk(fn):
-        if isinstance(n, ast.Return):
-            if not (isinstance(n.value, ast.Call) and ast.unparse(n.value.func) == "Sample" and len(n.value.args) == 2
-                    and ast.unparse(n.value.args[0]) == "timestamp"):
+    sym2 = mk_sym()
+    seen: list = []
+
+    def target_ret(s: ast.stmt, env: dict):  # type: ignore[no-untyped-def]
+        if isinstance(s, ast.Return):
+            v = sym2.ev(s.value, env) if s.value is not None else None
+            if not (isinstance(v, SampleV) and isinstance(v.ts, Num) and v.ts.term == V("timestamp")):
                 raise Unsupported("resample() returns something else than Sample(timestamp, …)")
+            seen.append(True)
+        return None
+
+    sym2.run(body, {ts: Num(V("timestamp"), "Int")}, target_ret)
+    if not seen:
+        raise Unsupported("resample() returns nothing")
     sig = "(timestamp resamplingPeriod : Int) (samplingPeriod : Option Int) (maxAge : Rat) : Int"
+    ps = ["timestamp", "resamplingPeriod", "samplingPeriod", "maxAge"]
     out.append("/-- `islice(buffer, bisect_right(buffer, <this>), …)`: the older edge of the relevance window. -/\n"
-               f"def relevanceLowKey {sig} :=\n  {need_int(r.items[0], 'low key')}")
+               f"def relevanceLowKey {sig} :=\n  {normal(need_int(r.items[0], 'low key'), ps)}")
     out.append("/-- `islice(buffer, …, bisect_right(buffer, <this>))`: the newer edge of the relevance window. -/\n"
-               f"def relevanceHighKey {sig} :=\n  {need_int(r.items[1], 'high key')}")
+               f"def relevanceHighKey {sig} :=\n  {normal(need_int(r.items[1], 'high key'), ps)}")
     return "\n\n".join(out)
 
 
-def add_sample_shape(hel: ast.ClassDef) -> None:
+def add_sample_shape(hel: ast.ClassDef, tree: ast.Module) -> None:
+    """`add_sample` appends the sample, counts it and stamps the start of the sampling once (in any order)."""
     fn = find_method(hel, "add_sample")
-    if [a.arg for a in fn.args.args] != ["self", "sample"]:
-        raise Unsupported("add_sample signature")
-    src = sorted(ast.unparse(s) for s in body_of(fn))
-    want = sorted(["self._buffer.append(sample)",
-                   "if self._source_properties.sampling_start is None:\n    self._source_properties.sampling_start = sample.timestamp",
-                   "self._source_properties.received_samples += 1"])
-    if src != want:
+    p = params_of(fn, 2, "add_sample")[1]
+    leaves = dict(HELPER_LEAVES)
+    leaves["sample.timestamp"] = Num(V("sampleTs"), "Int")
+    sym = Sym(leaves, cls=hel, module=tree)
+    sym.run(body_of(fn), {p: Obj("sample")}, lambda s, e: None)
+    if not sym.ends:
         raise Unsupported("add_sample changed shape")
+    for path, fx in sym.ends:
+        eff = sorted(f for f in fx if f[0] in ("store", "call", "loop"))
+        want = [("call", "self._buffer.append", ("sample",)),
+                ("store", "self._source_properties.received_samples",
+                 describe(Num(Op("add", "Int", Op("nat2int", "Int", V("received")), Lit(1)), "Int")))]
+        if ("opt", "samplingStart", "none") in path:
+            want.append(("store", "self._source_properties.sampling_start", "sampleTs"))
+        elif ("opt", "samplingStart", "some") not in path:
+            raise Unsupported("add_sample changed shape")
+        if eff != sorted(want):
+            raise Unsupported("add_sample changed shape")
     init = find_method(hel, "__init__")
-    if "deque(maxlen=config.initial_buffer_len)" not in ast.unparse(init):
+    cfg = params_of(init, 3, "_ResamplingHelper.__init__")[2]
+    sym = Sym({}, cls=hel, module=tree)
+    ok: list = []
+
+    def target(s: ast.stmt, env: dict):  # type: ignore[no-untyped-def]
+        if isinstance(s, (ast.Assign, ast.AnnAssign)) and s.value is not None:
+            for t in (s.targets if isinstance(s, ast.Assign) else [s.target]):
+                b = sym.ev(t.value, env) if isinstance(t, ast.Attribute) else None
+                if isinstance(b, Obj) and f"{b.path}.{t.attr}" == "self._buffer":  # type: ignore[union-attr]
+                    c = s.value
+                    good = isinstance(c, ast.Call) and ast.unparse(c.func) in ("deque", "collections.deque") \
+                        and not c.args and [k.arg for k in c.keywords] == ["maxlen"]
+                    v = sym.ev(c.keywords[0].value, env) if good else None  # type: ignore[union-attr]
+                    ok.append(isinstance(v, Obj) and v.path == "self._config.initial_buffer_len")
+        return None
+
+    sym.run(body_of(init), {cfg: Obj("self._config")}, target)
+    if ok != [True]:
         raise Unsupported("initial buffer is not deque(maxlen=config.initial_buffer_len)")
 
 
-def receive_filter(stream: ast.ClassDef) -> str:
+def receive_filter(stream: ast.ClassDef, tree: ast.Module) -> str:
     fn = find_method(stream, "_receive_samples")
-    loop = next((s for s in body_of(fn) if isinstance(s, ast.AsyncFor)), None)
-    if loop is None or not isinstance(loop.target, ast.Name) or ast.unparse(loop.iter) != "self._source":
+    params_of(fn, 1, "_receive_samples")
+    stmts = body_of(fn)
+    loops = [s for s in stmts if isinstance(s, ast.AsyncFor)]
+    if len(loops) != 1 or not isinstance(loops[0].target, ast.Name) or loops[0].orelse:
         raise Unsupported("_receive_samples loop shape")
-    v = loop.target.id
-    finite = Num("((!isNaN) && (!isInf))", "Bool")
-    sym = Sym({f"{v}.value": Num("<isNone:isNone>", "Bool"), f"{v}.value.isnan()": Num("isNaN", "Bool"),
-               f"{v}.value.isinf()": Num("isInf", "Bool"),
-               f"math.isnan({v}.value.base_value)": Num("isNaN", "Bool"),
-               f"math.isinf({v}.value.base_value)": Num("isInf", "Bool"),
-               f"math.isfinite({v}.value.base_value)": finite}, {})
+    loop = loops[0]
+    isnan, isinf = ("bvar", "isNaN"), ("bvar", "isInf")
+    sym = Sym({"sample.value.isnan()": Num(isnan, "Bool"), "sample.value.isinf()": Num(isinf, "Bool"),
+               "math.isnan(sample.value.base_value)": Num(isnan, "Bool"),
+               "math.isinf(sample.value.base_value)": Num(isinf, "Bool"),
+               "math.isfinite(sample.value.base_value)": Num(("and", (mknot(isnan), mknot(isinf))), "Bool")},
+              cls=stream, module=tree, optobjs={"sample.value": ("bvar", "isNone")})
+    env: dict = {}
+    for s in stmts[:stmts.index(loop)]:
+        if isinstance(s, ast.Assign) and len(s.targets) == 1 and isinstance(s.targets[0], ast.Name):
+            env[s.targets[0].id] = sym.ev(s.value, env)
+    src = sym.ev(loop.iter, env)
+    if not (isinstance(src, Obj) and src.path == "self._source"):
+        raise Unsupported("_receive_samples loop shape")
     added: list[bool] = []
 
-    def target(s: ast.stmt, env: dict):  # type: ignore[no-untyped-def]
-        if isinstance(s, ast.Expr) and ast.unparse(s.value) == f"self._helper.add_sample({v})":
+    def target(s: ast.stmt, e: dict):  # type: ignore[no-untyped-def]
+        if isinstance(s, ast.Expr) and isinstance(s.value, ast.Call) and isinstance(s.value.func, ast.Attribute) \
+                and s.value.func.attr == "add_sample":
+            b = sym.ev(s.value.func.value, e)
+            a = [sym.ev(x, e) for x in s.value.args]
+            if not (isinstance(b, Obj) and b.path == "self._helper" and len(a) == 1 and not s.value.keywords
+                    and isinstance(a[0], Obj) and a[0].path == "sample"):
+                raise Unsupported("_receive_samples does not hand the received sample to the helper")
             added.append(True)
-            return Num("true", "Bool")
-        if isinstance(s, ast.Continue):
-            return Num("false", "Bool")
+            return Num(TRUE, "Bool")
+        if isinstance(s, (ast.Continue, ast.Break, ast.Return, ast.Raise)):
+            if not isinstance(s, ast.Continue):
+                raise Unsupported("_receive_samples leaves its loop")
+            return Num(FALSE, "Bool")
         return None
 
+    env[loop.target.id] = Obj("sample")
     # falling off the end of the body = not added
-    r = sym.run(list(loop.body) + [ast.Continue()], {v: Obj(v)}, target)
+    r = sym.run(list(loop.body) + [ast.Continue()], env, target)
     if not added or not isinstance(r, Num) or r.ty != "Bool":
         raise Unsupported("_receive_samples does not add the accepted sample")
     return ("/-- The condition under which `_StreamingHelper._receive_samples` hands a sample to the helper\n"
             "(`isInf`: the value is +inf or -inf). -/\n"
-            "def acceptsSample (isNone isNaN isInf : Bool) : Bool :=\n  " + r.term)
+            "def acceptsSample (isNone isNaN isInf : Bool) : Bool :=\n  " + normal(r.term, ["isNone", "isNaN", "isInf"]))
 
 
 def generate(repo: pathlib.Path) -> str:
@@ -900,8 +1986,10 @@ def generate(repo: pathlib.Path) -> str:
     hel = find_class(tree, "_ResamplingHelper")
     stream = find_class(tree, "_StreamingHelper")
     bisect_import(tree)
-    add_sample_shape(hel)
-    parts = [constants(tree), calc_window_end(res), timer_hack(res), resample_loop(res), helper_parts(hel),
-             receive_filter(stream)]
+    add_sample_shape(hel, tree)
+    args: dict = {}
+    timer = timer_hack(res, tree, args)
+    parts = [constants(tree), calc_window_end(res, tree, args), timer, resample_loop(res, tree),
+             helper_parts(hel, tree), receive_filter(stream, tree)]
     return ("set_option linter.unusedVariables false\n\nnamespace Extracted.Resampling\n\n" + PRELUDE + "\n"
             + "\n\n".join(parts) + "\n\nend Extracted.Resampling\n")
